@@ -105,6 +105,61 @@ TRUSTED PART (everything else is re-checked by the kernel through the equality t
      - `ABSTRACT` gains `specialize_triangle` (dictionaries: not translated), a parameter of `subdivide_nodes`.
      - `lst.extend((a, b, ...))` with a literal tuple / list is `lst.append(a); lst.append(b); ...`; a 2-entry array (kind P)
        passed where a 1-D array (kind V) is declared is the list of its two entries; a parameter kind may be a tuple.
+PHASE 4 (builder pypipeline) - additions to the trusted part, every one marked `phase 4 (pypipeline)` in the code
+ * kinds: ("fn", parameter kinds, result kind, can raise?) - a callable PARAMETER (`evaluate_fn` of `newton_iterate`): its
+   Lean type is the function type, a call is an application (bound with `Rt.bind` when it can raise);
+   LIN / OSUB / SHAPE - `Linearization` objects, `SubdividedCurve` objects with all four slots, and "either of the
+   two" (`Rt.PyLin`, `Rt.PySub`, `Rt.PyShape`): slots are fields (`end` is `stop`); a slot read from a SHAPE value is
+   `Rt.PyShape.asLin` / `.asSub` (`AttributeError` = `Err.badInput` on the other class); `x.__class__ is Linearization` is
+   `Rt.PyShape.isLin`; `SubdividedCurve(a, b, ...)` is the structure literal (`OBJECTS`: `__init__` must only store its
+   parameters; missing arguments = its numeric defaults); an OSUB / LIN value where SHAPE is declared is injected.
+ * `x = None` gives `x` no Lean binding; it gets the type `Option _` where it meets a value (loop state, `if` arm); a value
+   that is ALWAYS None used as a number is `Rt.unwrap none` (TypeError).  `x is None` / `x is not None` of a maybe-None
+   value is `Option.isNone` / `isSome` (no narrowing: a later use as a number unwraps again).  A maybe-NaN value
+   (`np.nan`) used as a number is `Rt.unwrapNaN` = `Err.badInput`: NaN has no meaning in K; the theorems show that the
+   branch is not taken.  A maybe-None array where a translated callee expects an array is unwrapped the same way.
+ * loops: `break` / `continue` (`Rt.Step`, `Rt.loopE`, `Rt.loopM`; `continue` alone uses the existing `Sum.inr` step); a
+   loop-carried variable that starts as an int constant (`count = 0`) is a Python int (Nat / Int) when the body keeps it
+   one, otherwise a number of K as before; a loop over a literal tuple / `range(c <= 4)` with `break` / `continue` is refused.
+ * arrays: `np.empty((r, c))` with constants r, c <= 4 filled by `x[i, j] = scalar`, `x[i, :] = scalar`,
+   `x[a:b, j0:j1] = <2 x 1 array>` is tracked cell by cell (`grid_assign`): no value until every cell is assigned once, then
+   the r x c array of the cells; `if c: x[i, j] = a` / `else: x[i, j] = b` with the SAME cell in both arms is
+   `t = a if c else b; x[i, j] = t`; `A == c` for a 2-D array (entry by entry, consumed by `np.all`), `m[lo:hi, :]`, `m.size`,
+   `np.empty((d, 0))` as a value (d empty rows), a `d x 1` literal `[[a], [b]]`, `v.reshape((n, 1), order="F")` of a 1-D
+   array (`Rt.reshapeCol`: ValueError unless it has n entries), `m.ravel(order="F")` (`Rt.ravelF` = columns one after the
+   other), `np.array(pairs, order="C").T` of a list of pairs (`Rt.pairsT`), a 2 x 2 array where any 2-D array may come,
+   a list literal of tuples, a tuple-valued variable assigned in both arms of an `if`.
+ * untranslated callees (`ABSTRACT.update`): `elevate_nodes`, `locate_point`, `specialize_curve`, `convex_hull_collide`, the
+   class method `Linearization.from_shape`, `intersect_one_round` (its list argument that is updated in place comes back next to
+   the result: `x = f(.., lst)` re-binds `x` and `lst`); parameters of the generated definitions, nothing assumed.
+ * two assignment forms of `all_intersections`: `msg = TEMPLATE.format(CONSTANTS)` (a message string that only a `raise`
+   uses) is skipped; `lst = pairs` where `lst` holds a list of pairs and `pairs` is a (maybe-None) pair of pairs of
+   (maybe-None) numbers is the list of the two pairs - that is how `np.array` reads either.
+ * PHASE 4 (pyclassify) - decision logic of the triangle-triangle intersection (`hazmat/triangle_helpers.py`,
+   `hazmat/triangle_intersection.py`; theorems in Tables/SrcPyClassify.lean).  New parameter kinds:
+       B     bool                                                    -> Bool
+       CLS   member of `IntersectionClassification`, or None          -> Option Model.Classify.Cls
+             (`CLASSIFICATION_T.X`, also through module-level names such as `UNUSED_T`, is `Cls.ofCode <integer read from
+             the class body>`: the integers are pinned by `classification_codes_src`; `==`, `!=`, `in (..)` are identity)
+       INT   `Intersection` object (only its slots are read)          -> Model.Classify.Intersection K; each slot may hold None:
+             `x.s == 1.0` is `x.s = some 1` (None == number is False), a slot used as a number / index / in `<` is
+             `Rt.unwrap` (TypeError = `Err.badInput`); `Intersection(a, b, c, d, interior_curve=e)` is the record (checked:
+             `__init__` only stores its five parameters)
+       OL    the Python list `intersections` whose elements have IDENTITY -> List (Intersection K); iterating it yields
+       REF   object references `Model.Walk.WNode K`: `pos = some i` iff the object IS `intersections[i]` (`Rt.refs`);
+             a new `Intersection(...)` returned where references are returned is `Rt.newRef` (`pos = none`)
+       ("mlist", "POS")  a Python list of ELEMENTS OF `intersections` (`unused`), kept as the list of their positions;
+             `node in unused` / `unused.remove(node)` are identity tests (`Intersection` has no `__eq__`): `Rt.refIn`,
+             `Rt.refRemove`.  TRUSTED: the caller passes a list all of whose entries are (distinct) elements of `intersections`.
+       CSET  a Python set of classifications -> List Cls (duplicate-free list); `len`, truth value, and `.pop()` ONLY for a
+             one-element set (`Rt.setPop1`; otherwise `badInput`); a set that was popped from / passed to a translated
+             function must not be read again (refused)
+   New primitives: `np.sign` (`Rt.sign`, also through the module alias `_SIGN`), int `%` positive constant, `x.ravel(order="F")`
+   of a `d x 1` array, `x = f(..); x *= c` for the fresh result of a translated function all of whose `return`s deliver an
+   arithmetic expression, `x = None` (kind settled by unification), `is None` / `is not None`, keyword arguments that directly
+   follow the positional ones, bool defaults, a function-level `from bezier.hazmat import <listed module>`, `RET_HINT` (result
+   kind where only `[]` / None literals are returned).  New ABSTRACT callees: `curve_helpers.get_curvature`,
+   `triangle_intersection.locate_point`, `triangle_helpers.basic_interior_combine`.
 
 ACCEPTED PYTHON (per function body; docstrings ignored)
    statements : `x = e`, `a, b, _ = e` (tuple / 2-entry array unpacking), `x op= e` (numbers, arrays created in the
@@ -197,7 +252,45 @@ SIGS = [
     ("triangle_intersection", "mean_centroid", [("list", ("tuple", ("S", "S", "S", "MN")))]),
     ("triangle_intersection", "update_locate_candidates",
      [("tuple", ("S", "S", "S", "MN")), ("mlist", ("tuple", ("S", "S", "S", "MN"))), "S", "S", "N"]),
+    # phase 4 (pypipeline)
+    ("intersection_helpers", "newton_iterate", [("fn", ("S", "S"), ("tuple", (("opt", "M22", "none"), "C")), True), "S", "S"]),
+    ("intersection_helpers", "NewtonDoubleRoot.__call__", ["MN", "MN", "MN", "MN", "MN", "MN", "S", "S"]),
+    ("geometric_intersection", "make_same_degree", ["MN", "MN"]),
+    ("geometric_intersection", "coincident_parameters", ["MN", "MN"]),
+    ("geometric_intersection", "from_linearized", ["LIN", "LIN", ("mlist", ("tuple", ("S", "S")))]),
+    ("geometric_intersection", "prune_candidates", [("list", ("tuple", ("SHAPE", "SHAPE")))]),
+    ("geometric_intersection", "check_lines", ["SHAPE", "SHAPE"]),
+    ("geometric_intersection", "all_intersections", ["MN", "MN"]),
+    ("geometric_intersection", "SubdividedCurve.subdivide", ["MN", "MN", "S", "S"]),
+    ("geometric_intersection", "Linearization.from_shape", ["SHAPE"]),
+    # phase 4 (pyclassify): decision logic of the triangle-triangle intersection (hazmat/triangle_helpers.py)
+    ("triangle_helpers", "handle_ends", ["N", "S", "N", "S"]),
+    ("triangle_helpers", "is_first", ["CLS"]),
+    ("triangle_helpers", "is_second", ["CLS"]),
+    ("triangle_helpers", "ignored_edge_corner", ["C", "C", "MN"]),
+    ("triangle_helpers", "ignored_double_corner", ["INT", "C", "C", ("list", "MN"), ("list", "MN")]),
+    ("triangle_helpers", "ignored_corner", ["INT", "C", "C", ("list", "MN"), ("list", "MN")]),
+    ("triangle_helpers", "classify_tangent_intersection", ["INT", "MN", "C", "MN", "C"]),
+    ("triangle_helpers", "classify_intersection", ["INT", ("list", "MN"), ("list", "MN")]),
+    ("triangle_helpers", "ends_to_curve", ["INT", "INT"]),
+    ("triangle_helpers", "get_next_first", ["INT", "OL", "B"]),
+    ("triangle_helpers", "get_next_second", ["INT", "OL", "B"]),
+    ("triangle_helpers", "get_next_coincident", ["INT", "OL"]),
+    ("triangle_helpers", "get_next", ["INT", "OL", ("mlist", "POS")]),
+    ("triangle_helpers", "to_front", ["REF", "OL", ("mlist", "POS")]),
+    ("triangle_helpers", "tangent_only_intersections", ["CSET"]),
+    ("triangle_helpers", "no_intersections", ["M2N", "N", "M2N", "N"]),
+    ("triangle_helpers", "combine_intersections", ["OL", "M2N", "N", "M2N", "N", "CSET"]),
+    ("triangle_intersection", "classify_coincident", ["M2N", "B"]),
+    ("triangle_intersection", "should_use", ["INT"]),
+    ("triangle_intersection", "check_unused", ["INT", ("mlist", "INT"), "OL"]),
 ]
+# phase 4 (pyclassify): the kind of the result where the returned literals alone do not determine it (`([], None)`)
+OUTCOME = ("tuple", (("opt", ("list", ("list", ("tuple", ("N", "S", "S")))), "none"), ("opt", "B", "none")))
+RET_HINT = {
+    ("triangle_helpers", "tangent_only_intersections"): OUTCOME,
+    ("triangle_helpers", "no_intersections"): OUTCOME,
+}
 MODULES = {
     "bezier.hazmat.helpers": "helpers",
     "bezier.hazmat.geometric_intersection": "geometric_intersection",
@@ -207,6 +300,7 @@ MODULES = {
     "bezier.hazmat.curve_helpers": "curve_helpers",
     "bezier.hazmat.triangle_intersection": "triangle_intersection",
     "bezier._helpers": "helpers",                      # shim, pure-Python configuration
+    "bezier.hazmat.triangle_intersection": "triangle_intersection",      # phase 4 (pyclassify)
 }
 # functions that are CALLED by translated functions but not translated themselves: the generated definitions of their
 # (transitive) callers take them as an explicit parameter, like `sqrt`; nothing is assumed about them
@@ -216,7 +310,34 @@ ABSTRACT = {     # (module, name) -> (parameter kinds, result kind, can raise?)
     ("intersection_helpers", "newton_iterate"): (["EV", "S", "S"], ("tuple", ("B", "S", "S")), True),
     # phase 4 (pytri): the dictionary-based generic path of subdivide_nodes is a parameter of its caller
     ("triangle_helpers", "specialize_triangle"): (["MN", "N", "V", "V", "V"], "MN", True),
+    # phase 4 (pyclassify)
+    ("curve_helpers", "get_curvature"): (["MN", "C", "S"], "S", False),
+    ("triangle_intersection", "locate_point"): (["M2N", "N", "S", "S"], ("opt", ("tuple", ("S", "S")), "none"), False),
+    ("triangle_helpers", "basic_interior_combine"): (["OL"], OUTCOME, True),
 }
+# phase 4 (pypipeline): callees of the pipeline that are not translated (parameters of the generated definitions)
+ABSTRACT.update({
+    ("curve_helpers", "elevate_nodes"): (["MN"], "MN", False),
+    ("curve_helpers", "locate_point"): (["MN", "C"], ("opt", "S", "none"), True),
+    ("curve_helpers", "specialize_curve"): (["MN", "S", "S"], "MN", False),
+    ("geometric_intersection", "convex_hull_collide"): (["MN", "MN"], "B", False),
+    ("geometric_intersection", "Linearization.from_shape"): (["SHAPE"], "SHAPE", False),
+    ("curve_helpers", "subdivide_nodes"): (["MN"], ("tuple", ("MN", "MN")), False),
+    # a list argument that the callee updates in place (kind mlist) is handed back next to the result
+    ("geometric_intersection", "intersect_one_round"): (
+        [("list", ("tuple", ("SHAPE", "SHAPE"))), ("mlist", ("tuple", ("S", "S")))],
+        ("list", ("tuple", ("SHAPE", "SHAPE"))), True),
+})
+# phase 4 (pypipeline): classes whose objects are built by the translated code: class -> (kind, Lean structure, slots -> fields)
+OBJECTS = {"SubdividedCurve": ("OSUB", "Rt.PySub", [("nodes", "nodes", "MN"), ("original_nodes", "original_nodes", "MN"),
+                                                   ("start", "start", "S"), ("end", "stop", "S")])}
+
+
+def abstract_lean_type(ak, ar, can_raise):
+    """Lean type of an untranslated callee: mutable list arguments come back next to the result"""
+    muts = [k for k in ak if isinstance(k, tuple) and k[0] == "mlist"]
+    rk = ar if not muts else ("tuple", tuple([ar] + [("list", k[1]) for k in muts]))
+    return " → ".join([atom(lty(k)) for k in ak] + [("Except Err %s" % atom(lty(rk))) if can_raise else lty(rk)])
 EXC = {"NotImplementedError": "notImplemented", "ValueError": "valueError",
        "RuntimeError": "runtimeError", "UnsupportedDegree": "unsupportedDegree"}
 
@@ -465,6 +586,41 @@ def asM22 (m : List (List K)) : Except Err (List (List K)) :=
 
 /-- `np.repeat(m, n, axis=1)`: every column `n` times in a row -/
 def repeatCols (m : List (List K)) (n : Nat) : List (List K) := m.map fun r => r.flatMap fun x => List.replicate n x
+/-! ### phase 4 (pyclassify): decision logic of the triangle-triangle intersection -/
+
+/-- `np.sign(x)` of a float: `-1.0`, `0.0` or `1.0` -/
+def sign (x : K) : K := if 0 < x then 1 else if x < 0 then -1 else 0
+
+/-- the elements of the Python list `intersections` as object references: the element at position `i` IS
+    `intersections[i]` (`pos = some i`) -/
+def refsFrom : List (Model.Classify.Intersection K) → Nat → List (Model.Walk.WNode K)
+  | [], _ => []
+  | x :: xs, i => { pos := some i, val := x } :: refsFrom xs (i + 1)
+
+def refs (l : List (Model.Classify.Intersection K)) : List (Model.Walk.WNode K) := refsFrom l 0
+
+/-- a new `Intersection(...)` object: it is none of the elements of `intersections` -/
+def newRef (x : Model.Classify.Intersection K) : Model.Walk.WNode K := { pos := none, val := x }
+
+/-- `node in unused` for a list `unused` of elements of `intersections` kept as the list of their positions (no `__eq__` on
+    `Intersection`: membership is identity); a new object is never in it -/
+def refIn (n : Model.Walk.WNode K) (unused : List Nat) : Bool :=
+  match n.pos with
+  | some i => unused.contains i
+  | none => false
+
+/-- `all_types.pop()` of a set of classifications, modelled for a ONE-element set only (the element); for any other size
+    the popped element is arbitrary (not modelled: `badInput`) -/
+def setPop1 (s : List Model.Classify.Cls) : Except Err (Option Model.Classify.Cls) :=
+  match s with
+  | [c] => .ok (some c)
+  | _ => .error .badInput
+
+/-- `unused.remove(node)` (only reached after `node in unused`; `ValueError` otherwise) -/
+def refRemove (n : Model.Walk.WNode K) (unused : List Nat) : Except Err (List Nat) :=
+  match n.pos with
+  | some i => if unused.contains i then .ok (unused.erase i) else .error .valueError
+  | none => .error .valueError
 
 end Rt
 """
@@ -477,6 +633,91 @@ LEAN_KEYWORDS = {"end", "at", "from", "then", "else", "do", "open", "show", "hav
                  "List", "Except", "Option", "Nat", "Bool", "Src", "Py", "BezierVerif"}
 # a local variable must not capture a generated global either
 LEAN_KEYWORDS |= {fn for _, fn, _ in SIGS} | {fn for _, fn in ABSTRACT}
+
+# phase 4 (pypipeline): loops with `break` (appended to the runtime text; nothing above is changed)
+RUNTIME = RUNTIME[:RUNTIME.rindex("end Rt")] + """\
+/-! ### phase 4 (pypipeline): loops with `break` -/
+
+/-- what one iteration of a loop with `break` answers: `return r`, `break` with the state, or go on with the state -/
+inductive Step (ρ σ : Type) where
+  | ret (r : ρ)
+  | brk (s : σ)
+  | next (s : σ)
+
+/-- `for x in xs:` with early `return` and `break`: `Sum.inl r` (the function returns `r`) or `Sum.inr state` (the loop
+    was left by `break` or ran out; the statements after the loop follow) -/
+def loopE {α σ ρ : Type} (xs : List α) (init : σ) (step : σ → α → Step ρ σ) : ρ ⊕ σ :=
+  match xs with
+  | [] => .inr init
+  | x :: xs =>
+    match step init x with
+    | .ret r => .inl r
+    | .brk s => .inr s
+    | .next s => loopE xs s step
+
+/-- the same where the step can raise -/
+def loopM {α σ ρ : Type} (xs : List α) (init : σ) (step : σ → α → Except Err (Step ρ σ)) : Except Err (ρ ⊕ σ) :=
+  match xs with
+  | [] => .ok (.inr init)
+  | x :: xs =>
+    bind (step init x) fun res =>
+      match res with
+      | .ret r => .ok (.inl r)
+      | .brk s => .ok (.inr s)
+      | .next s => loopM xs s step
+
+/-- a `SubdividedCurve` object with its four slots (kind OSUB; `end` is `stop`) -/
+structure PySub (κ : Type) where
+  nodes : List (List κ)
+  original_nodes : List (List κ)
+  start : κ
+  stop : κ
+
+/-- a `Linearization` object with its four slots (kind LIN) -/
+structure PyLin (κ : Type) where
+  curve : PySub κ
+  error : κ
+  start_node : List κ
+  end_node : List κ
+
+/-- a candidate of the subdivision process: a `SubdividedCurve` or a `Linearization` object (kind SHAPE) -/
+inductive PyShape (κ : Type) where
+  | sub (c : PySub κ)
+  | lin (l : PyLin κ)
+
+/-- `x.__class__ is Linearization` -/
+def PyShape.isLin {κ : Type} : PyShape κ → Bool
+  | .sub _ => false
+  | .lin _ => true
+
+/-- a slot of `Linearization` read from a candidate (`AttributeError` on a `SubdividedCurve`) -/
+def PyShape.asLin {κ : Type} : PyShape κ → Except Err (PyLin κ)
+  | .sub _ => .error .badInput
+  | .lin l => .ok l
+
+/-- a slot of `SubdividedCurve` read from a candidate (`AttributeError` on a `Linearization`) -/
+def PyShape.asSub {κ : Type} : PyShape κ → Except Err (PySub κ)
+  | .sub c => .ok c
+  | .lin _ => .error .badInput
+
+/-- a value that may be NaN (`np.nan`) used as a number: NaN is outside the number type `K` -/
+def unwrapNaN {α : Type} (x : Option α) : Except Err α :=
+  match x with
+  | some v => .ok v
+  | none => .error .badInput
+
+/-- `v.reshape((n, 1), order="F")` of a 1-D array: it must have `n` entries (`ValueError`) -/
+def reshapeCol (n : Nat) (v : List K) : Except Err (List K) :=
+  if v.length = n then .ok v else .error .valueError
+
+/-- `np.array(pairs, order="C").T` of a non-empty list of pairs: the `2 × N` array of first / second entries -/
+def pairsT (l : List (K × K)) : List (List K) := [l.map (·.1), l.map (·.2)]
+
+/-- `m.ravel(order="F")` of a 2-D array: column after column -/
+def ravelF (m : List (List K)) : List K := (Model.transpose m).flatten
+
+end Rt
+"""
 
 
 class Problem(Exception):
@@ -517,6 +758,11 @@ def is_list(k):
     return isinstance(k, tuple) and k[0] == "list"
 
 
+def is_fn(k):
+    """phase 4 (pypipeline): ("fn", parameter kinds, result kind, can raise?) - a callable handed in as an argument"""
+    return isinstance(k, tuple) and k[0] == "fn"
+
+
 def kstr(k):
     """kind as written in the doc comment of a generated definition"""
     if isinstance(k, str):
@@ -527,6 +773,10 @@ def kstr(k):
         return "L(%s)" % ("?" if k[1] is None else kstr(k[1]))
     if k[0] == "tuple":
         return "(" + ",".join(kstr(c) for c in k[1]) + ")"
+    if k[0] == "fn":            # phase 4 (pypipeline): a callable parameter
+        return "FN(%s->%s%s)" % (",".join(kstr(c) for c in k[1]), kstr(k[2]), "!" if k[3] else "")
+    if k[0] == "opt":
+        return "%s?" % kstr(k[1])
     return repr(k)
 
 
@@ -534,7 +784,10 @@ def lty(k):
     base = {"S": "K", "B": "Bool", "E": "Nat", "P": "Pt K", "V": "List K", "VB": "List Bool",
             "M22": "List (List K)", "M2N": "List (List K)", "MN": "List (List K)",
             "I": "Int", "N": "Nat", "X": "Rt.Ext K", "SUB": "Model.SubCurve K", "C": "List K", "S1": "K",
-            "EV": "Model.NewtonEval K"}
+            "EV": "Model.NewtonEval K", "LIN": "Rt.PyLin K", "OSUB": "Rt.PySub K", "SHAPE": "Rt.PyShape K",
+            "CLS": "Option Model.Classify.Cls", "INT": "Model.Classify.Intersection K",
+            "REF": "Model.Walk.WNode K", "OL": "List (Model.Classify.Intersection K)", "POS": "Nat",
+            "CSET": "List Model.Classify.Cls"}
     base["MC"] = "List (List K)"          # phase 4 (pytri)
     if isinstance(k, str) and k in base:
         return base[k]
@@ -548,6 +801,8 @@ def lty(k):
         return "Option %s" % atom(lty(k[1]))
     if is_tuple(k):
         return " × ".join(("(%s)" % lty(c)) if is_tuple(c) else lty(c) for c in k[1])
+    if is_fn(k):                # phase 4 (pypipeline)
+        return " → ".join([atom(lty(a)) for a in k[1]] + [("Except Err %s" % atom(lty(k[2]))) if k[3] else lty(k[2])])
     raise Problem("result position is always None / nan: no Lean type (%r)" % (k,))
 
 
@@ -558,6 +813,14 @@ def unify(a, b):
         return "X"
     if {a, b} == {"N", "I"}:
         return "I"
+    if {a, b} == {"MN", "M22"}:         # phase 4 (pypipeline): a 2 x 2 array where any 2-D array may come
+        return "MN"
+    if "SHAPE" in (a, b) and {a, b} <= {"SHAPE", "LIN", "OSUB"}:      # an object where a candidate may come
+        return "SHAPE"
+    if {a, b} == {"REF", "INT"}:          # phase 4 (pyclassify): a new Intersection object where references are returned
+        return "REF"
+    if {a, b} == {"CLS", "none"}:         # a classification or None: `Option Cls` already has the value None
+        return "CLS"
     if is_list(a) and is_list(b):
         if a[1] is None or b[1] is None:
             return a if b[1] is None else b
@@ -682,6 +945,10 @@ class Fail:
 class Next:                       # end of the body of a loop with early exit: continue with this state
     def __init__(self, code):
         self.code = code
+
+
+class Brk(Next):                  # phase 4 (pypipeline): `break` - leave the loop with this state
+    pass
 
 
 class Loop:
@@ -810,8 +1077,20 @@ class Translator:
 def contains_exit(stmts):
     for st in stmts:
         for node in ast.walk(st):
-            if isinstance(node, (ast.Return, ast.Raise)):
+            if isinstance(node, (ast.Return, ast.Raise, ast.Break, ast.Continue)):
                 return True
+    return False
+
+
+def has_loop_jump(stmts, kinds=(ast.Break, ast.Continue)):
+    """phase 4 (pypipeline): a `break` / `continue` that belongs to the loop whose body `stmts` is (nested loops excluded)"""
+    for st in stmts:
+        if isinstance(st, kinds):
+            return True
+        if isinstance(st, ast.If) and (has_loop_jump(st.body, kinds) or has_loop_jump(st.orelse, kinds)):
+            return True
+        if isinstance(st, (ast.With, ast.Try, ast.While)):
+            return True                      # refused elsewhere
     return False
 
 
@@ -850,7 +1129,8 @@ def assigned_names(stmts, env):
                 c = st.value
                 if isinstance(c.func, ast.Attribute) and isinstance(c.func.value, ast.Name) and c.func.attr == "extend":
                     targets(c.func.value)          # phase 4 (pytri)
-                if isinstance(c.func, ast.Attribute) and isinstance(c.func.value, ast.Name) and c.func.attr == "append":
+                if isinstance(c.func, ast.Attribute) and isinstance(c.func.value, ast.Name) and \
+                        c.func.attr in ("append", "remove"):
                     targets(c.func.value)
                 for a in c.args:
                     if isinstance(a, ast.Name) and a.id in env and is_list(env[a.id].kind) and a.id not in out:
@@ -911,26 +1191,42 @@ class FunctionTranslator:
             init = self.mod.methods.get((cls, "__init__"))
             if node is None or init is None:
                 raise Problem("method not found in %s.py" % self.modname)
-            ia = init.args
-            fields = [x.arg for x in ia.args][1:]
-            body = [st for st in init.body if not (isinstance(st, ast.Expr) and isinstance(st.value, ast.Constant))]
-            ok = len(body) == len(fields) and not (ia.vararg or ia.kwarg or ia.kwonlyargs or ia.defaults)
-            for st, f in zip(body, fields):
+            if [ast.unparse(d_) for d_ in node.decorator_list] == ["classmethod"] and node.args.args \
+                    and node.args.args[0].arg == "cls":
+                # phase 4 (pypipeline): a class method: no object fields; `cls` is the class itself
+                self.cls_name = cls
+                node = ast.FunctionDef(name=node.name, args=ast.arguments(
+                    posonlyargs=[], args=node.args.args[1:], vararg=node.args.vararg, kwonlyargs=node.args.kwonlyargs,
+                    kw_defaults=node.args.kw_defaults, kwarg=node.args.kwarg, defaults=node.args.defaults),
+                    body=node.body, decorator_list=[], returns=None, type_comment=None, lineno=node.lineno,
+                    col_offset=node.col_offset, end_lineno=node.end_lineno, end_col_offset=node.end_col_offset)
+                init = None
+            ia = init.args if init is not None else None
+            fields = [x.arg for x in ia.args][1:] if init is not None else None
+            body = [st for st in init.body if not (isinstance(st, ast.Expr) and isinstance(st.value, ast.Constant))] \
+                if init is not None else []
+            cls_obj = init is not None and cls in OBJECTS       # phase 4: `__init__` of an OBJECTS class may have defaults
+            ok = init is None or (len(body) == len(fields) and not (ia.vararg or ia.kwarg or ia.kwonlyargs
+                                                                     or (ia.defaults and not cls_obj)))
+            for st, f in zip(body, fields or []):
                 ok = ok and isinstance(st, ast.Assign) and len(st.targets) == 1 and \
                     ast.unparse(st.targets[0]) == "self.%s" % f and ast.unparse(st.value) == f
-            if not ok or not node.args.args or node.args.args[0].arg != "self":
+            if init is not None and (not ok or not node.args.args or node.args.args[0].arg != "self"):
                 raise Problem("__init__ does more than storing its parameters")
             self.fields = fields
         else:
             node = self.mod.funcs.get(self.fn)
         if node is None:
             raise Problem("function not found in %s.py" % self.modname)
+        self.fn_node = node
         kinds = self.tr.sigs[(self.modname, self.fn)]
         a = node.args
         if a.vararg or a.kwarg or a.kwonlyargs or a.posonlyargs:
             raise Problem("unsupported parameter list")
         params = [x.arg for x in a.args]
-        if self.fields is not None:
+        if self.fields is None and "." in self.fn:
+            pass                                         # a class method (see above)
+        elif self.fields is not None:
             if set(self.fields) & set(params[1:]):
                 raise Problem("a field and a parameter of the method have the same name")
             params = self.fields + params[1:]
@@ -941,6 +1237,8 @@ class FunctionTranslator:
         defaults = []
         for p, d in zip(params[len(params) - len(a.defaults):], a.defaults):
             v = self.const_eval(d)
+            if v is None and isinstance(d, ast.Constant) and isinstance(d.value, bool):
+                v = d.value                      # phase 4 (pyclassify): a bool default (`to_end=True`)
             if v is None:
                 raise Problem("default value of parameter %s is not a numeric constant" % p)
             defaults.append((p, v))
@@ -995,6 +1293,8 @@ class FunctionTranslator:
             ret = k if ret is None else unify(ret, k)
         if ret is None:
             raise Problem("no result")
+        if (self.modname, self.fn) in RET_HINT:
+            ret = unify(ret, RET_HINT[(self.modname, self.fn)])
         self.ret = ret
         rty = lty(ret)
         monadic = impure(ir)
@@ -1005,6 +1305,9 @@ class FunctionTranslator:
                 binders.append("(sqrt : K → K)")
             else:
                 ak, ar, can_raise = ABSTRACT[x]
+                if "." in x[1] or any(isinstance(k_, tuple) and k_[0] == "mlist" for k_ in ak):     # phase 4 (pypipeline)
+                    binders.append("(%s : %s)" % (x[1].replace(".", "_"), abstract_lean_type(ak, ar, can_raise)))
+                    continue
                 binders.append("(%s : %s → %s)" % (x[1], " → ".join(atom(lty(k)) for k in ak),
                                                   ("Except Err %s" % atom(lty(ar))) if can_raise else lty(ar)))
         i = 0
@@ -1019,7 +1322,9 @@ class FunctionTranslator:
             ("Except Err %s" % atom(rty)) if monadic else rty)
         dtext = "".join("/-- default value of parameter `%s` of `%s` -/\ndef %s_default_%s : Rat := %s\n\n"
                         % (p, self.fn, self.fn, p, "(%d : Rat) / %d" % (v.numerator, v.denominator))
-                        for p, v in defaults)
+                        for p, v in defaults if not isinstance(v, bool))
+        dtext += "".join("/-- default value of parameter `%s` of `%s` -/\ndef %s_default_%s : Bool := %s\n\n"
+                         % (p, self.fn, self.fn, p, "true" if v else "false") for p, v in defaults if isinstance(v, bool))
         return Translated(self.fn, params, kinds, ret, monadic, list(self.extra), dtext + head + text, defaults=defaults,
                           mut=[i for i, p in enumerate(params) if p in self.mut_params],
                           ret_none=all(kd == "none" for kd in self.plain_rets))
@@ -1045,18 +1350,30 @@ class FunctionTranslator:
             return "Rt.Ext.fin %s" % atom(val.code)
         if k == "N" and target == "I":
             return "(%s : Int)" % val.code
+        if k == "M22" and target == "MN":
+            return val.code
+        if target == "SHAPE" and k in ("LIN", "OSUB"):
+            return "Rt.PyShape.%s %s" % ("lin" if k == "LIN" else "sub", atom(val.code))
         if k == "S" and val.intval is not None and target in ("N", "I") and (target == "I" or val.intval >= 0):
             return self.as_nat(val) if target == "N" else self.as_int(val)      # phase 4: int counters of loops
+        if k == "INT" and target == "REF":
+            return "Rt.newRef %s" % atom(val.code)
+        if k == "none" and target == "CLS":
+            return "none"
         if is_list(k) and is_list(target) and (k[1] is None or k[1] == target[1]):
             return val.code
         if is_opt(target):
             if k in ("none", "nan"):
                 return "none"
             if is_opt(k):
-                if k[1] == target[1]:
+                if k[1] == target[1] or (k[1], target[1]) == ("M22", "MN"):
                     return val.code
                 raise Problem("cannot convert %r to %r" % (k, target))
             return "some %s" % atom(self.coerce(val, target[1]))
+        if is_tuple(target) and is_tuple(k) and val.comps is None and len(k[1]) == len(target[1]):
+            n = len(k[1])                  # phase 4 (pypipeline): a tuple variable: its components are projections
+            comps = [Val(k[1][i], atom(val.code) + ".2" * i + (".1" if i < n - 1 else "")) for i in range(n)]
+            return "(" + ", ".join(self.coerce(c, t) for c, t in zip(comps, target[1])) + ")"
         if is_tuple(target) and is_tuple(k) and val.comps is not None and len(val.comps) == len(target[1]):
             return "(" + ", ".join(self.coerce(c, t) for c, t in zip(val.comps, target[1])) + ")"
         raise Problem("cannot convert result of kind %r to %r" % (k, target))
@@ -1068,6 +1385,10 @@ class FunctionTranslator:
         def ok(code):
             return (".ok %s" % atom(code)) if monadic else code
 
+        if ctx == "loopb" and isinstance(ir, (Leaf, Next)):       # phase 4 (pypipeline): body of a loop with `break`
+            if isinstance(ir, Leaf):
+                return pad + ok("Rt.Step.ret %s" % atom(self.coerce(ir.val, self.ret))) + "\n"
+            return pad + ok("Rt.Step.%s %s" % ("brk" if isinstance(ir, Brk) else "next", atom(ir.code))) + "\n"
         if isinstance(ir, Leaf):
             c = self.coerce(ir.val, self.ret)
             return pad + ok(c if ctx == "fn" else "Sum.inl %s" % atom(c)) + "\n"
@@ -1122,8 +1443,19 @@ class FunctionTranslator:
                 return (pad + "Rt.bind (Rt.foldM %s %s fun %s %s =>\n" % (atom(ir.it), init, ir.spat, ir.target)
                         + body + ") fun %s =>\n" % ir.spat + self.render(ir.rest, monadic, ind, ctx))
             rho = atom(lty(self.ret))
-            body = self.render(ir.body, bm, ind + 2, "loop").rstrip("\n")
-            leave = ok(ir.r if ctx == "fn" else "Sum.inl %s" % ir.r)
+            brk = getattr(ir, "brk", False)           # phase 4 (pypipeline): the loop contains `break`
+            body = self.render(ir.body, bm, ind + 2, "loopb" if brk else "loop").rstrip("\n")
+            leave = ok(ir.r if ctx == "fn" else ("Rt.Step.ret %s" if ctx == "loopb" else "Sum.inl %s") % ir.r)
+            if brk and not bm:
+                return (pad + "(match Rt.loopE (ρ := %s) %s %s (fun %s %s =>\n" % (rho, atom(ir.it), init, ir.spat, ir.target)
+                        + body + ") with\n" + pad + "| .inl %s => %s\n" % (ir.r, leave)
+                        + pad + "| .inr %s =>\n" % ir.spat + self.render(ir.rest, monadic, ind + 1, ctx).rstrip("\n") + ")\n")
+            if brk:
+                assert monadic
+                return (pad + "Rt.bind (Rt.loopM (ρ := %s) %s %s fun %s %s =>\n" % (rho, atom(ir.it), init, ir.spat, ir.target)
+                        + body + ") fun %s =>\n" % ir.res
+                        + pad + "(match %s with\n" % ir.res + pad + "| .inl %s => %s\n" % (ir.r, leave)
+                        + pad + "| .inr %s =>\n" % ir.spat + self.render(ir.rest, monadic, ind + 1, ctx).rstrip("\n") + ")\n")
             if not bm:
                 return (pad + "(match Rt.forE (ρ := %s) %s %s (fun %s %s =>\n" % (rho, atom(ir.it), init, ir.spat, ir.target)
                         + body + ") with\n" + pad + "| .inl %s => %s\n" % (ir.r, leave)
@@ -1143,6 +1475,15 @@ class FunctionTranslator:
         where = "line %d" % st.lineno
         if isinstance(st, ast.Pass):
             return self.block(rest, env, k)
+        if isinstance(st, ast.ImportFrom) and st.level == 0 and all(
+                "%s.%s" % (st.module, a.name) in MODULES and (a.asname or a.name) not in env and
+                (a.asname or a.name) not in self.locals_ and
+                self.mod.aliases.get(a.asname or a.name, MODULES["%s.%s" % (st.module, a.name)]) ==
+                MODULES["%s.%s" % (st.module, a.name)] for a in st.names):
+            # phase 4 (pyclassify): a function-level `from bezier.hazmat import <listed module>`
+            for a in st.names:
+                self.mod.aliases[a.asname or a.name] = MODULES["%s.%s" % (st.module, a.name)]
+            return self.block(rest, env, k)
         if isinstance(st, ast.Expr) and isinstance(st.value, ast.Constant) and isinstance(st.value.value, str):
             return self.block(rest, env, k)            # docstring / bare string
         if isinstance(st, ast.Return):
@@ -1152,6 +1493,13 @@ class FunctionTranslator:
                 return self.leaf(Val("none", "none"), env, where)
             binds, v = self.tx(st.value, env)
             return wrap(binds, self.leaf(v, env, where))
+        if isinstance(st, (ast.Break, ast.Continue)):        # phase 4 (pypipeline)
+            if rest:
+                raise Problem("unreachable statements after break / continue (%s)" % where)
+            if not getattr(self, "loop_ctx", None):
+                raise Problem("break / continue outside a loop that is translated as a loop (%s)" % where)
+            code = self.loop_ctx[-1](env)
+            return Brk(code) if isinstance(st, ast.Break) else Next(code)
         if isinstance(st, ast.Raise):
             if rest:
                 raise Problem("unreachable statements after raise (%s)" % where)
@@ -1186,6 +1534,7 @@ class FunctionTranslator:
             ok_aug = ok_aug or (isinstance(st.target, ast.Name) and st.target.id in env     # phase 4 (pytri)
                                 and env[st.target.id].kind == "MN" and getattr(env[st.target.id], "fresh", False)
                                 and isinstance(st.op, (ast.Mult, ast.Div)))
+            # (phase 4: a `d x 1` array bound to the fresh result of a translated function is `inplace` as well, see `assign`)
             if not ok_aug:
                 raise Problem("augmented assignment to something else than a number variable or an array created in "
                               "this function (%s)" % where)
@@ -1199,6 +1548,27 @@ class FunctionTranslator:
             return self.call_stmt(st.value, rest, env, k, where)
         if isinstance(st, ast.For):
             return self.for_loop(st, rest, env, k, where)
+        if isinstance(st, ast.If) and len(st.body) == 1 and len(st.orelse) == 1 \
+                and all(isinstance(x, ast.Assign) and len(x.targets) == 1 and isinstance(x.targets[0], ast.Subscript)
+                        and isinstance(x.targets[0].value, ast.Name) for x in (st.body[0], st.orelse[0])) \
+                and ast.dump(st.body[0].targets[0]) == ast.dump(st.orelse[0].targets[0]) \
+                and isinstance(self.prealloc.get(st.body[0].targets[0].value.id), tuple) \
+                and self.prealloc[st.body[0].targets[0].value.id][0] == "G":
+            # phase 4 (pypipeline): `if c: x[i, j] = a` / `else: x[i, j] = b` (the same cell of a grid array in both arms)
+            # is `t = a if c else b` (arms still evaluated lazily) followed by `x[i, j] = t`
+            t = self.tmp()
+            self.names.add(t)
+            arms = []
+            for x in (st.body[0], st.orelse[0]):
+                a = ast.Assign(targets=[ast.Name(id=t, ctx=ast.Store())], value=x.value)
+                ast.copy_location(a, x)
+                arms.append(a)
+            new_if = ast.If(test=st.test, body=[arms[0]], orelse=[arms[1]])
+            put = ast.Assign(targets=[st.body[0].targets[0]], value=ast.Name(id=t, ctx=ast.Load()))
+            for n in (new_if, put):
+                ast.copy_location(n, st)
+                ast.fix_missing_locations(n)
+            return self.block([new_if, put] + rest, env, k)
         if isinstance(st, ast.If):
             binds, c = self.tx(st.test, env)
             c = self.truth(c)
@@ -1239,7 +1609,7 @@ class FunctionTranslator:
             kinds = {}
             for n in phi:
                 kd = unify(env_a[n].kind, env_b[n].kind)
-                if is_tuple(kd) or kd in ("none", "nan", "VB"):
+                if kd in ("none", "nan", "VB"):       # phase 4 (pypipeline): tuple kinds are allowed (see `coerce`)
                     raise Problem("variable %s has kind %r after the if (%s)" % (n, kd, where))
                 kinds[n] = kd
                 env2[n] = Val(kd, lname(n))
@@ -1254,7 +1624,7 @@ class FunctionTranslator:
 
     def truth(self, c):
         """truth value of a list: non-empty"""
-        if is_list(c.kind):
+        if is_list(c.kind) or c.kind in ("OL", "CSET"):
             return Val("B", "!(List.isEmpty %s)" % atom(c.code))
         return c
 
@@ -1294,6 +1664,21 @@ class FunctionTranslator:
             env2[name] = Val(("list", ek), lname(name))
             return wrap(binds, Let(lname(name), "%s ++ [%s]" % (atom(cur.code), self.coerce(v, ek)),
                                    self.block(rest, env2, k)))
+        if isinstance(f, ast.Attribute) and f.attr == "remove" and isinstance(f.value, ast.Name) and f.value.id in env \
+                and env[f.value.id].kind == ("list", "POS"):
+            # phase 4 (pyclassify): `unused.remove(node)` on the list of positions
+            name = f.value.id
+            if len(c.args) != 1 or c.keywords or name in self.ro_lists:
+                raise Problem("remove with this argument list / on a read-only list (%s)" % where)
+            binds, v = self.tx(c.args[0], env)
+            if is_opt(v.kind) and v.kind[1] == "REF":
+                v = self.need(binds, v, "REF", "argument of remove (%s)" % where)
+            if v.kind != "REF":
+                raise Problem("remove of a value of kind %r (%s)" % (v.kind, where))
+            env2 = dict(env)
+            env2[name] = Val(("list", "POS"), lname(name))
+            binds.append(("bind", lname(name), "Rt.refRemove %s %s" % (atom(v.code), atom(env[name].code))))
+            return wrap(binds, self.block(rest, env2, k))
         binds, v, muts = self.call(c, env, where, stmt=True)
         if not muts:
             raise Problem("call whose result is discarded (%s)" % where)
@@ -1343,6 +1728,8 @@ class FunctionTranslator:
         binds, v = self.tx(it, env)
         if v.kind == "MN" and not v.wide and not v.inplace:
             return binds, v.code, "V"                                        # phase 4: the rows of a 2-D array
+        if v.kind == "OL":            # phase 4 (pyclassify): the elements as object references
+            return binds, "Rt.refs %s" % atom(v.code), "REF"
         if is_list(v.kind) and v.kind[1] is not None:
             return binds, v.code, v.kind[1]
         if v.kind == "V":
@@ -1353,7 +1740,10 @@ class FunctionTranslator:
         if st.orelse:
             raise Problem("for ... else (%s)" % where)
         it = st.iter
+        self.unroll_guard = has_loop_jump(st.body)      # phase 4 (pypipeline): `break` / `continue` need a real loop
         if isinstance(it, (ast.Tuple, ast.List)):
+            if self.unroll_guard:
+                raise Problem("break / continue in a loop over a literal tuple (%s)" % where)
             # a loop over a literal tuple is unrolled: target = e1; body; target = e2; body; ...
             new = []
             for e in it.elts:
@@ -1367,6 +1757,8 @@ class FunctionTranslator:
                 and len(it.args) == 1 and not it.keywords:
             b0, n0 = self.tx(it.args[0], env)
             if not b0 and n0.kind == "S" and n0.intval is not None and 0 <= n0.intval <= 4:
+                if self.unroll_guard:
+                    raise Problem("break / continue in a loop over range(%d) (%s)" % (n0.intval, where))
                 new = []                        # range(c) with a small constant c is unrolled as well
                 for c in range(n0.intval):
                     a = ast.Assign(targets=[st.target], value=ast.Constant(value=c))
@@ -1415,12 +1807,17 @@ class FunctionTranslator:
         def run_body(final):
             envs = []
 
-            def kb(e):
+            def state_code(e):          # phase 4 (pypipeline): also the state at a `break` / `continue`
                 envs.append(e)
                 if not final:
-                    return Yield("?")
+                    return "?"
                 cs = [self.coerce(e[n], kinds[n]) for n in carried]
-                code = "()" if not cs else cs[0] if len(cs) == 1 else "(" + ", ".join(cs) + ")"
+                return "()" if not cs else cs[0] if len(cs) == 1 else "(" + ", ".join(cs) + ")"
+
+            def kb(e):
+                code = state_code(e)
+                if not final:
+                    return Yield("?")
                 return Next(code) if has_exit else Yield(code)
             e0 = dict(env)
             for n in carried:
@@ -1429,24 +1826,51 @@ class FunctionTranslator:
             for n, kd in zip(tnames, tkinds):
                 if n != "_":
                     e0[n] = Val(kd, lname(n))
-            return self.block(st.body, e0, kb), envs
+            if not hasattr(self, "loop_ctx"):
+                self.loop_ctx = []
+            self.loop_ctx.append(state_code)
+            try:
+                return self.block(st.body, e0, kb), envs
+            finally:
+                self.loop_ctx.pop()
         keep = (self.ntmp, len(self.ret_kinds), len(self.plain_rets))
-        for _ in range(4):
-            _, envs = run_body(False)
-            self.ntmp = keep[0]
-            del self.ret_kinds[keep[1]:]
-            del self.plain_rets[keep[2]:]
-            new = dict(kinds)
-            for e in envs:
-                for n in carried:
-                    if n not in e:
-                        raise Problem("variable %s may be unbound after an iteration (%s)" % (n, where))
-                    new[n] = unify(new[n], e[n].kind)
-            if new == kinds:
-                break
-            kinds = new
-        else:
+
+        def settle(kinds):
+            for _ in range(4):
+                _, envs = run_body(False)
+                self.ntmp = keep[0]
+                del self.ret_kinds[keep[1]:]
+                del self.plain_rets[keep[2]:]
+                new = dict(kinds)
+                for e in envs:
+                    for n in carried:
+                        if n not in e:
+                            raise Problem("variable %s may be unbound after an iteration (%s)" % (n, where))
+                        new[n] = unify(new[n], e[n].kind)
+                if new == kinds:
+                    return kinds
+                kinds.clear()
+                kinds.update(new)
             raise Problem("the kinds of the loop-carried variables do not settle (%s)" % where)
+        # phase 4 (pypipeline): a carried variable that starts as an int constant (`count = 0`) is first tried as a Python
+        # int (Nat / Int); when that does not settle (it is mixed with floats) it is a number of K, as before
+        ints = {n: ("N" if env[n].intval >= 0 else "I") for n in carried if env[n].kind == "S" and env[n].intval is not None}
+        done = False
+        if ints:
+            kinds.update(ints)
+            try:
+                settle(kinds)
+                done = all(kinds[n] in ("N", "I") for n in ints)
+            except Problem:
+                pass
+            if not done:
+                self.ntmp = keep[0]
+                del self.ret_kinds[keep[1]:]
+                del self.plain_rets[keep[2]:]
+                kinds.clear()
+                kinds.update({n: env[n].kind for n in carried})
+        if not done:
+            settle(kinds)
         for n in carried:
             if is_tuple(kinds[n]) or kinds[n] in ("none", "nan", "VB") or (is_list(kinds[n]) and kinds[n][1] is None):
                 raise Problem("loop-carried variable %s of kind %r (%s)" % (n, kinds[n], where))
@@ -1469,11 +1893,78 @@ class FunctionTranslator:
             init = "(" + ", ".join(inits) + ")"
             sty = lty(("tuple", tuple(kinds[n] for n in carried)))
         r, res = self.tmp(), self.tmp()
-        return wrap(binds, Loop(it_code, tpat, spat, init, sty, body_ir, self.block(rest, env2, k), has_exit, r, res))
+        loop = Loop(it_code, tpat, spat, init, sty, body_ir, self.block(rest, env2, k), has_exit, r, res)
+        loop.brk = has_loop_jump(st.body, (ast.Break,))         # phase 4 (pypipeline)
+        return wrap(binds, loop)
+
+    def assign_special(self, target, value, rest, env, k, where):
+        """phase 4 (pypipeline): three assignment forms of `all_intersections`"""
+        if not isinstance(target, ast.Name) or target.id == "_":
+            return None
+        # (a) `msg = TEMPLATE.format(CONSTANT, ...)`: a message string built from module constants; no effect, not modelled
+        if isinstance(value, ast.Call) and isinstance(value.func, ast.Attribute) and value.func.attr == "format" \
+                and isinstance(value.func.value, ast.Name) and value.func.value.id not in env \
+                and isinstance(self.mod.consts.get(value.func.value.id), ast.Constant) \
+                and isinstance(self.mod.consts[value.func.value.id].value, str) and not value.keywords \
+                and all(isinstance(a, ast.Name) and a.id not in env and a.id in self.mod.consts for a in value.args):
+            uses = sum(1 for st in rest for n in ast.walk(st) if isinstance(n, ast.Name) and n.id == target.id)
+            in_raise = sum(1 for st in rest for r in ast.walk(st) if isinstance(r, ast.Raise) and r.exc is not None
+                           for n in ast.walk(r.exc) if isinstance(n, ast.Name) and n.id == target.id)
+            if uses != in_raise:
+                raise Problem("the message string %s is used outside a raise (%s)" % (target.id, where))
+            return self.block(rest, env, k)
+        # (b) `x = f(.., lst)` for an untranslated `f` that updates the list `lst` in place
+        if isinstance(value, ast.Call) and isinstance(value.func, ast.Name) and value.func.id not in env \
+                and (self.modname, value.func.id) in ABSTRACT \
+                and any(isinstance(kd, tuple) and kd[0] == "mlist" for kd in ABSTRACT[(self.modname, value.func.id)][0]):
+            fn = value.func.id
+            ak, ar, can_raise = ABSTRACT[(self.modname, fn)]
+            if value.keywords or len(value.args) != len(ak) or not can_raise:
+                raise Problem("call of %s with this argument list (%s)" % (fn, where))
+            binds, args, muts = [], [], []
+            for a, kd in zip(value.args, ak):
+                b, v = self.tx(a, env)
+                binds += b
+                if isinstance(kd, tuple) and kd[0] == "mlist":
+                    if not (isinstance(a, ast.Name) and is_list(v.kind)) or a.id in self.ro_lists or a.id == target.id:
+                        raise Problem("argument of %s that is updated in place must be a list variable (%s)" % (fn, where))
+                    muts.append(a.id)
+                    v = self.need(binds, v, ("list", kd[1]), "argument of %s (%s)" % (fn, where))
+                else:
+                    v = self.need(binds, v, kd, "argument of %s (%s)" % (fn, where))
+                args.append(atom(v.code))
+            self.use_extra((self.modname, fn))
+            env2 = dict(env)
+            env2[target.id] = Val(ar, lname(target.id))
+            for (n, kd) in [(m_, ("list", kd_[1])) for m_, kd_ in zip(muts, [x for x in ak if isinstance(x, tuple) and x[0] == "mlist"])]:
+                env2[n] = Val(kd, lname(n))
+            pat = "(" + ", ".join([lname(target.id)] + [lname(m_) for m_ in muts]) + ")"
+            binds.append(("bind", pat, "%s %s" % (fn, " ".join(args))))
+            return wrap(binds, self.block(rest, env2, k))
+        # (c) `lst = pairs` where `lst` holds a list of pairs and `pairs` is a (maybe-None) pair of pairs of (maybe-None)
+        #     numbers: the list of the two pairs (that is how `np.array` reads either); None anywhere is a TypeError
+        if isinstance(value, ast.Name) and value.id in env and target.id in env and is_list(env[target.id].kind) \
+                and env[target.id].kind[1] in (None, ("tuple", ("S", "S"))):
+            v = env[value.id]
+            inner = v.kind[1] if is_opt(v.kind) else v.kind
+            if is_tuple(inner) and len(inner[1]) == 2 and all(is_tuple(c) and len(c[1]) == 2 for c in inner[1]):
+                binds = []
+                v = self.need(binds, v, inner, "value assigned to the list %s (%s)" % (target.id, where))
+                cs = []
+                for i, proj in enumerate((".1.1", ".1.2", ".2.1", ".2.2")):
+                    ck = inner[1][i // 2][1][i % 2]
+                    cs.append(self.need(binds, Val(ck, atom(v.code) + proj), "S", "entry of %s (%s)" % (value.id, where)).code)
+                env2 = dict(env)
+                env2[target.id] = Val(("list", ("tuple", ("S", "S"))), lname(target.id))
+                return wrap(binds, Let(lname(target.id), "[(%s, %s), (%s, %s)]" % tuple(cs), self.block(rest, env2, k)))
+        return None
 
     def slice_assign(self, target, value, rest, env, k, where):
         """`x[:] = e` for an array x created by np.empty: x is (re-)bound to e"""
         sl = target.slice
+        if isinstance(target.value, ast.Name) and isinstance(self.prealloc.get(target.value.id), tuple) \
+                and self.prealloc[target.value.id][0] == "G":
+            return self.grid_assign(target.value.id, sl, value, rest, env, k, where)      # phase 4 (pypipeline)
 
         def is_full(x):
             return isinstance(x, ast.Slice) and x.lower is None and x.upper is None and x.step is None
@@ -1610,6 +2101,59 @@ class FunctionTranslator:
             if not isinstance(e, ast.Call):
                 return False
         return bool(rets)
+    def grid_assign(self, name, sl, value, rest, env, k, where):
+        """phase 4 (pypipeline): `x = np.empty((r, c))` with constant r, c <= 4, filled by `x[i, j] = scalar`,
+        `x[i, :] = scalar`, `x[a:b, j0:j1] = <d x 1 array>` (a region of 2 rows and 1 column).  The cells are tracked
+        one by one; `x` has no value until every cell is assigned (reading it before is refused), then it is the
+        r x c array of the cells (kind MN); a cell assigned twice or an assignment after that is refused."""
+        _, r, c = self.prealloc[name]
+        if not (isinstance(sl, ast.Tuple) and len(sl.elts) == 2):
+            raise Problem("assignment target %s[%s] (%s)" % (name, ast.unparse(sl), where))
+
+        def rng(x, n):
+            if isinstance(x, ast.Slice):
+                if x.step is not None:
+                    raise Problem("slice with a step (%s)" % where)
+                lo = None if x.lower is None else self.const_int(x.lower)
+                hi = None if x.upper is None else self.const_int(x.upper)
+                if (x.lower is not None and lo is None) or (x.upper is not None and hi is None):
+                    raise Problem("non-constant slice bound (%s)" % where)
+                return list(range(n))[slice(lo, hi)], True
+            i = self.const_int(x)
+            if i is None or not -n <= i < n:
+                raise Problem("index %s into an axis of length %d (%s)" % (ast.unparse(x), n, where))
+            return [i % n], False
+        rows, rs = rng(sl.elts[0], r)
+        cols, cs = rng(sl.elts[1], c)
+        if not rows or not cols:
+            raise Problem("empty region %s[%s] (%s)" % (name, ast.unparse(sl), where))
+        if name in env and env[name].kind != "G":
+            raise Problem("assignment to %s after all of its cells have been assigned (%s)" % (name, where))
+        cur = dict(env[name].cells) if name in env else {}
+        binds, v = self.tx(value, env)
+        if v.kind in ("S", "I", "N"):
+            v = self.as_scalar(binds, v, "array entry (%s)" % where)
+            t = self.tmp()
+            binds.append(("let", t, v.code))
+            new = {(i, j): t for i in rows for j in cols}
+        elif v.kind == "C" and rs and cs and len(rows) == 2 and len(cols) == 1:
+            t = self.tmp()
+            binds.append(("bind", t, "Rt.asPt %s" % atom(v.code)))     # a 2 x 1 value (anything else: badInput)
+            new = {(rows[0], cols[0]): "%s.1" % t, (rows[1], cols[0]): "%s.2" % t}
+        else:
+            raise Problem("assignment of a value of kind %r to the region %s[%s] (%s)" % (v.kind, name, ast.unparse(sl), where))
+        if set(new) & set(cur):
+            raise Problem("a cell of %s is assigned twice (%s)" % (name, where))
+        cur.update(new)
+        env2 = dict(env)
+        if len(cur) == r * c:
+            code = "[" + ", ".join("[" + ", ".join(cur[(i, j)] for j in range(c)) + "]" for i in range(r)) + "]"
+            env2[name] = Val("MN", lname(name))
+            return wrap(binds, Let(lname(name), code, self.block(rest, env2, k)))
+        part = Val("G", "?")
+        part.cells = cur
+        env2[name] = part
+        return wrap(binds, self.block(rest, env2, k))
 
     def dim_nat(self, v):
         return self.as_nat(v) if self.natlike(v) else "Int.toNat %s" % atom(self.as_int(v))
@@ -1673,16 +2217,34 @@ class FunctionTranslator:
             env2 = dict(env)
             env2.pop(target.id, None)
             ir = self.block(rest, env2, k)
-            if isinstance(pk, tuple):
+            if isinstance(pk, tuple) and pk[0] == "W":
                 for dim in (pk[2], pk[1]):          # a negative dimension: ValueError
                     if not self.natlike(dim) and (dim.code, id(env.get(dim.code))) not in self.guarded:
                         self.guarded.add((dim.code, id(env.get(dim.code))))
                         ir = Ite("%s < 0" % atom(self.as_int(dim)), Fail("valueError"), ir)
             return ir
+        sp = self.assign_special(target, value, rest, env, k, where)        # phase 4 (pypipeline)
+        if sp is not None:
+            return sp
         binds, v = self.tx(value, env)
         env2 = dict(env)
         if isinstance(value, ast.Name) and (v.inplace or is_list(v.kind)):
             raise Problem("a second name for a list / an array that is updated in place (%s)" % where)
+        if getattr(v, "view", False) and v.inplace:
+            raise Problem("a name for a view (`.ravel`) of an array that is updated in place (%s)" % where)
+        if isinstance(target, ast.Name) and getattr(v, "fresh", False) and v.kind == "C" and any(
+                isinstance(n, ast.AugAssign) and isinstance(n.target, ast.Name) and n.target.id == target.id
+                for n in ast.walk(self.fn_node)):
+            # phase 4 (pyclassify): `x = f(..)` followed by `x *= c`: the result of `f` is a new array (every `return` of
+            # `f` delivers the value of an arithmetic expression), so `x` is its only name and may be updated in place
+            v.owned = True
+        if isinstance(target, ast.Name) and target.id != "_" and v.kind == "none" and (
+                isinstance(value, ast.Constant) or (not binds and isinstance(value, ast.Name))):
+            # phase 4 (pypipeline, pyclassify): `x = None` - no Lean binding; x is the literal None until it is re-bound / meets a
+            # value (loop-carried variable, `if` arm: kind settled by unification); used as a number it is a TypeError
+            # (`Err.badInput`, see `need`)
+            env2[target.id] = Val("none", "none")
+            return self.block(rest, env2, k)
         if isinstance(target, ast.Name):
             if v.kind in ("none", "nan") or v.kind == "VB":
                 raise Problem("assignment of a value of kind %r (%s)" % (v.kind, where))
@@ -1912,10 +2474,14 @@ class FunctionTranslator:
         if is_list(kind) and is_list(v.kind) and v.kind[1] is None:
             return Val(kind, "(%s : %s)" % (v.code, lty(kind)))
         if is_opt(v.kind) and v.kind[1] == kind:
-            if v.kind[2] != "none":
-                raise Problem("a maybe-NaN value is used as a number (%s)" % what)
             t = self.tmp()
-            binds.append(("bind", t, "Rt.unwrap %s" % atom(v.code)))
+            # phase 4 (pypipeline): a maybe-NaN value used as a number is `Rt.unwrapNaN` (NaN has no meaning in K)
+            binds.append(("bind", t, "Rt.%s %s" % ("unwrap" if v.kind[2] == "none" else "unwrapNaN", atom(v.code))))
+            return Val(kind, t)
+        if v.kind == "none" and kind in ("S", "M22", "MN", "C", "V"):
+            # phase 4 (pypipeline): a value that is always None used as a number / an array: TypeError
+            t = self.tmp()
+            binds.append(("bind", t, "Rt.unwrap (none : Option %s)" % atom(lty(kind))))
             return Val(kind, t)
         raise Problem("%s: kind %r where %r is required" % (what, v.kind, kind))
 
@@ -1950,13 +2516,37 @@ class FunctionTranslator:
                 t = self.tmp()                  # phase 4: all columns must have been written
                 return [("bind", t, "Rt.mcFreeze %s %s" % (self.mc_dims[node.id][1], lname(node.id)))], \
                     Val("MN", t, inplace=True)
+            if node.id in getattr(self, "dead_names", ()):
+                raise Problem("%s is read after it was changed in place (pop / passed to a function that pops) (%s)"
+                              % (node.id, where))
             if node.id in env:
                 return [], env[node.id]
+            c = self.mod.consts.get(node.id)
+            if node.id not in self.locals_ and isinstance(c, (ast.Attribute, ast.Tuple)) and \
+                    getattr(self, "const_depth", 0) < 4:
+                # phase 4 (pyclassify): a module-level name for an enum member / a tuple of enum members
+                # (`UNUSED_T = CLASSIFICATION_T.COINCIDENT_UNUSED`, `ACCEPTABLE_CLASSIFICATIONS = (...)`)
+                self.const_depth = getattr(self, "const_depth", 0) + 1
+                try:
+                    b, v = self.tx(c, {})
+                finally:
+                    self.const_depth -= 1
+                if not b and (v.kind == "CLS" or (is_tuple(v.kind) and v.comps and all(x.kind == "CLS" for x in v.comps))):
+                    return [], v
             raise Problem("name %s is not a parameter, a (definitely assigned) local or a numeric module constant (%s)"
                           % (node.id, where))
         if isinstance(node, ast.List):
             if not node.elts:
                 return [], Val(("list", None), "[]")
+            if all(isinstance(e, ast.Tuple) for e in node.elts):
+                binds, vs = [], []              # phase 4 (pypipeline): a list of tuples (all of one kind)
+                for e in node.elts:
+                    b, v = self.tx(e, env)
+                    binds += b
+                    vs.append(v)
+                if any(v.kind != vs[0].kind for v in vs):
+                    raise Problem("list of tuples of different kinds (%s)" % where)
+                return binds, Val(("list", vs[0].kind), "[" + ", ".join(v.code for v in vs) + "]")
             binds, cs = [], []
             for e in node.elts:
                 b, v = self.tx(e, env)
@@ -1981,13 +2571,21 @@ class FunctionTranslator:
                     name = "%s.%s" % (base, node.attr)
                     self.tr.enums[name] = self.mod.classes[base][node.attr]
                     return [], Val("E", name)
+                cls = self.enum_class(base)
+                if cls is not None and node.attr in cls[1]:
+                    # phase 4 (pyclassify): a member of `IntersectionClassification`, named through a module-level alias
+                    # (`CLASSIFICATION_T = intersection_helpers.IntersectionClassification`); the integer value is read
+                    # from the class body and mapped to the model's constructor by `Model.Classify.Cls.ofCode`
+                    name = "%s.%s" % (cls[0], node.attr)
+                    self.tr.enums[name] = cls[1][node.attr]
+                    return [], Val("CLS", "Model.Classify.Cls.ofCode %s" % name)
             raise Problem("attribute %s (%s)" % (ast.unparse(node), where))
         if isinstance(node, ast.Tuple):
             binds, comps = [], []
             for e in node.elts:
                 b, v = self.tx(e, env)
                 binds += b
-                if v.inplace or is_list(v.kind):
+                if v.inplace or (is_list(v.kind) and not (isinstance(e, ast.List) and not e.elts)):   # (`[]` literal: no alias)
                     raise Problem("a list / an array overwritten in place inside a tuple (%s)" % where)
                 comps.append(v)
             return binds, Val(("tuple", tuple(c.kind for c in comps)),
@@ -2016,6 +2614,18 @@ class FunctionTranslator:
             binds += b2
             ops = {ast.Add: "+", ast.Sub: "-", ast.Mult: "*", ast.Div: "/"}
             op = ops.get(type(node.op))
+            # phase 4 (pyclassify): a maybe-None int used in int arithmetic (`TypeError` on None = `Rt.unwrap`)
+            if is_opt(a.kind) and a.kind[1] in ("N", "I") and a.kind[2] == "none":
+                a = self.need(binds, a, a.kind[1], "left operand (%s)" % where)
+            if is_opt(b.kind) and b.kind[1] in ("N", "I") and b.kind[2] == "none":
+                b = self.need(binds, b, b.kind[1], "right operand (%s)" % where)
+            if isinstance(node.op, ast.Mod):
+                # phase 4 (pyclassify): Python's `a % c` of ints with a constant c > 0 is the remainder in `0 .. c-1`
+                if not (self.is_int(a) and b.kind == "S" and b.intval is not None and b.intval > 0):
+                    raise Problem("`%%` other than int %% positive int constant (%s)" % where)
+                if self.natlike(a):
+                    return binds, Val("N", "%s %% %d" % (atom(self.as_nat(a)), b.intval))
+                return binds, Val("N", "Int.toNat (Int.emod %s %d)" % (atom(self.as_int(a)), b.intval))
             if isinstance(node.op, ast.FloorDiv) and self.natlike(a) and self.natlike(b):
                 return binds, Val("N", "%s / %s" % (atom(self.as_nat(a)), atom(self.as_nat(b))))    # phase 4
             if op is None:
@@ -2076,6 +2686,26 @@ class FunctionTranslator:
         raise Problem("expression %s (%s)" % (type(node).__name__, where))
 
     SUB_FIELDS = {"start": ("S", "start"), "end": ("S", "stop"), "nodes": ("MN", "nodes")}
+    # phase 4 (pyclassify): the slots of an `Intersection` object; every one of them may hold None
+    INT_FIELDS = {"index_first": (("opt", "N", "none"), "indexFirst"), "s": (("opt", "S", "none"), "s"),
+                  "index_second": (("opt", "N", "none"), "indexSecond"), "t": (("opt", "S", "none"), "t"),
+                  "interior_curve": ("CLS", "interior")}
+    INT_CLASS = ("intersection_helpers", "Intersection")
+    CLS_CLASS = ("intersection_helpers", "IntersectionClassification")
+
+    def enum_class(self, name):
+        """phase 4 (pyclassify): `name` is a module-level alias `NAME = <module alias>.IntersectionClassification`
+        -> (class name, {member: int}); None otherwise"""
+        node = self.mod.consts.get(name)
+        if name in self.locals_ or not (isinstance(node, ast.Attribute) and isinstance(node.value, ast.Name)):
+            return None
+        al = self.mod.aliases.get(node.value.id)
+        if (al, node.attr) != self.CLS_CLASS:
+            return None
+        other = self.tr.module(al)
+        if node.attr not in other.classes:
+            return None
+        return node.attr, other.classes[node.attr]
 
     def shape_of(self, binds, v, where):
         """`.shape` / `np.shape(.)`: a tuple of natural numbers (the rows of a 2-D array must have equal lengths)"""
@@ -2097,14 +2727,61 @@ class FunctionTranslator:
         return Val(("tuple", tuple(c.kind for c in comps)), "(" + ", ".join(c.code for c in comps) + ")", comps=comps)
 
     def attribute(self, node, env, where):
+        c = node.value
+        if node.attr == "T" and isinstance(c, ast.Call) and isinstance(c.func, ast.Attribute) and c.func.attr == "array" \
+                and isinstance(c.func.value, ast.Name) and self.mod.aliases.get(c.func.value.id) == "numpy" \
+                and c.func.value.id not in env and len(c.args) == 1 and [k_.arg for k_ in c.keywords] == ["order"] \
+                and isinstance(c.keywords[0].value, ast.Constant) and c.keywords[0].value.value == "C":
+            b, v = self.tx(c.args[0], env)
+            if v.kind == ("list", ("tuple", ("S", "S"))):
+                # phase 4 (pypipeline): `np.array(pairs, order="C").T` (the caller has checked that the list is not empty)
+                return b, Val("MN", "Rt.pairsT %s" % atom(v.code))
+            raise Problem("np.array(...).T of a value of kind %r (%s)" % (v.kind, where))
         binds, base = self.tx(node.value, env)
         if node.attr == "shape":
             return binds, self.shape_of(binds, base, where)
         if base.kind == "MN" and node.attr == "T":
             return binds, Val("MN", "Model.transpose %s" % atom(base.code))
+        if base.kind == "MN" and node.attr == "size":          # phase 4 (pypipeline): number of entries
+            t = self.tmp()
+            binds.append(("bind", t, "Rt.shape %s" % atom(base.code)))
+            return binds, Val("N", "%s.1 * %s.2" % (t, t))
+        # phase 4 (pypipeline): the slots of `Linearization` / `SubdividedCurve` objects (kinds LIN / OSUB)
+        lin_fields = {"curve": ("OSUB", "curve"), "error": ("S", "error"), "start_node": ("V", "start_node"),
+                      "end_node": ("V", "end_node")}
+        osub_fields = {"nodes": ("MN", "nodes"), "original_nodes": ("MN", "original_nodes"), "start": ("S", "start"),
+                       "end": ("S", "stop")}
+        if base.kind == "SHAPE" and (node.attr in lin_fields or node.attr in osub_fields):
+            t = self.tmp()
+            if node.attr in lin_fields:
+                binds.append(("bind", t, "Rt.PyShape.asLin %s" % atom(base.code)))
+                base = Val("LIN", t)
+            else:
+                binds.append(("bind", t, "Rt.PyShape.asSub %s" % atom(base.code)))
+                base = Val("OSUB", t)
+        if base.kind == "LIN" and node.attr in lin_fields:
+            kd, field = lin_fields[node.attr]
+            return binds, Val(kd, "%s.%s" % (atom(base.code), field))
+        if base.kind == "OSUB" and node.attr in osub_fields:
+            kd, field = osub_fields[node.attr]
+            return binds, Val(kd, "%s.%s" % (atom(base.code), field))
         if base.kind == "SUB" and node.attr in self.SUB_FIELDS:
             kd, field = self.SUB_FIELDS[node.attr]
             return binds, Val(kd, "%s.%s" % (atom(base.code), field))
+        if base.kind == "INT" and node.attr in self.INT_FIELDS:
+            kd, field = self.INT_FIELDS[node.attr]
+            return binds, Val(kd, "%s.%s" % (atom(base.code), field))
+        if base.kind == "none" and node.attr in self.INT_FIELDS:
+            # the literal None: AttributeError
+            kd = self.INT_FIELDS[node.attr][0]
+            t = self.tmp()
+            binds.append(("bind", t, "(.error .badInput : Except Err %s)" % atom(lty(kd))))
+            return binds, Val(kd, t)
+        if is_opt(base.kind) and base.kind[1] == "REF" and base.kind[2] == "none" and node.attr in self.INT_FIELDS:
+            base = self.need(binds, base, "REF", "attribute of a maybe-None object (%s)" % where)      # AttributeError
+        if base.kind == "REF" and node.attr in self.INT_FIELDS:
+            kd, field = self.INT_FIELDS[node.attr]
+            return binds, Val(kd, "%s.val.%s" % (atom(base.code), field))
         raise Problem("attribute %s of a value of kind %r (%s)" % (node.attr, base.kind, where))
 
     def np_empty_kind(self, node, env=None):
@@ -2131,17 +2808,46 @@ class FunctionTranslator:
             if vals[1].kind == "S" and vals[1].intval == 1:
                 return ("W", vals[0], vals[2])
         if len(node.args) == 1 and set(kw) <= {"order"} and isinstance(node.args[0], ast.Tuple) \
-                and len(node.args[0].elts) == 2 and env is not None:
-            vals = []                                   # phase 4: ("MC", d, k), see `mc_create`
-            for e in node.args[0].elts:
-                b, v = self.tx(e, env)
-                if b or not self.is_int(v):
-                    raise Problem("np.empty with this shape (line %d)" % node.lineno)
-                vals.append(v)
-            return ("MC", vals[0], vals[1])
+                and len(node.args[0].elts) == 2:
+            # phase 4 (pypipeline): an r x c array with constant r, c that is filled region by region (`grid_assign`) - used for the
+            # modules of the intersection pipeline; phase 4 (pytri): ("MC", d, k) filled column by column, see `mc_create` - elsewhere
+            rc = [self.const_int(e) for e in node.args[0].elts]
+            if self.modname in ("intersection_helpers", "geometric_intersection") \
+                    and all(isinstance(x, int) and 1 <= x <= 4 for x in rc):
+                return ("G", rc[0], rc[1])
+            if env is not None:
+                vals = []
+                for e in node.args[0].elts:
+                    b, v = self.tx(e, env)
+                    if b or not self.is_int(v):
+                        raise Problem("np.empty with this shape (line %d)" % node.lineno)
+                    vals.append(v)
+                return ("MC", vals[0], vals[1])
         raise Problem("np.empty with this shape (line %d)" % node.lineno)
 
     def compare(self, node, env, where):
+        if len(node.ops) == 1 and isinstance(node.ops[0], ast.Is) and isinstance(node.left, ast.Attribute) \
+                and node.left.attr == "__class__" and isinstance(node.comparators[0], ast.Name) \
+                and (node.comparators[0].id == "Linearization"
+                     or (node.comparators[0].id == "cls" and getattr(self, "cls_name", None) == "Linearization")) \
+                and "Linearization" in self.mod.classes and "Linearization" not in env and "cls" not in env:
+            # phase 4 (pypipeline): `x.__class__ is Linearization` of a candidate (kind SHAPE)
+            binds, v = self.tx(node.left.value, env)
+            if v.kind != "SHAPE":
+                raise Problem("`__class__ is Linearization` of a value of kind %r (%s)" % (v.kind, where))
+            return binds, Val("B", "Rt.PyShape.isLin %s" % atom(v.code))
+        if len(node.ops) == 1 and isinstance(node.ops[0], (ast.Is, ast.IsNot)) \
+                and isinstance(node.comparators[0], ast.Constant) and node.comparators[0].value is None \
+                and self.modname in ("intersection_helpers", "geometric_intersection"):
+            # phase 4 (pypipeline): `x is None` / `x is not None` of a maybe-None value (in the modules of the intersection pipeline;
+            # elsewhere `compare_obj` of phase 4 (pyclassify) renders it as `x = none` / `x ≠ none`)
+            binds, v = self.tx(node.left, env)
+            neg = isinstance(node.ops[0], ast.IsNot)
+            if v.kind == "none":
+                return binds, Val("B", "false" if neg else "true")
+            if is_opt(v.kind) and v.kind[2] == "none":
+                return binds, Val("B", "Option.%s %s" % ("isSome" if neg else "isNone", atom(v.code)))
+            raise Problem("`is None` of a value of kind %r (%s)" % (v.kind, where))
         binds = []
         vals = []
         for i, e in enumerate([node.left] + node.comparators):
@@ -2150,12 +2856,26 @@ class FunctionTranslator:
                 raise Problem("a later operand of a chained comparison can raise (it is evaluated lazily) (%s)" % where)
             binds += b
             vals.append(v)
+        if len(vals) == 2 and isinstance(node.ops[0], (ast.Lt, ast.LtE, ast.Gt, ast.GtE)) and \
+                all(v.kind in ("S", "N", "I") or (is_opt(v.kind) and v.kind[1] in ("S", "N", "I") and v.kind[2] == "none")
+                    for v in vals) and any(is_opt(v.kind) for v in vals):
+            # phase 4 (pyclassify): `a < b` with a maybe-None operand: `TypeError` on None (`Rt.unwrap`), both operands are
+            # evaluated before the comparison
+            vals = [self.need(binds, v, v.kind[1], "operand of a comparison (%s)" % where) if is_opt(v.kind) else v for v in vals]
+        elif any(is_opt(v.kind) or v.kind in ("CLS", "INT", "REF", "none") for v in vals) or \
+                any(isinstance(o, (ast.In, ast.NotIn, ast.Is, ast.IsNot)) for o in node.ops):
+            return self.compare_obj(node, vals, binds, where)
         if len(vals) == 2 and vals[0].kind == "V" and vals[1].kind == "V":
             if not isinstance(node.ops[0], ast.LtE):
                 raise Problem("array comparison other than <= (%s)" % where)
             t = self.tmp()
             binds.append(("bind", t, "Rt.vzip (fun x y => decide (x ≤ y)) %s %s" % (atom(vals[0].code), atom(vals[1].code))))
             return binds, Val("VB", t)
+        if len(vals) == 2 and vals[0].kind == "MN" and not vals[0].wide and isinstance(node.ops[0], ast.Eq) \
+                and vals[1].kind == "S":
+            # phase 4 (pypipeline): `A == c` entry by entry (only `np.all` consumes it: the order of the entries is immaterial)
+            return binds, Val("VB", "List.map (fun x => decide (x = %s)) (List.flatten %s)"
+                              % (atom(vals[1].code), atom(vals[0].code)))
         if len(vals) == 2 and vals[0].kind in ("C", "V") and isinstance(node.ops[0], ast.Eq) \
                 and vals[1].kind == "S":
             return binds, Val("VB", "List.map (fun x => decide (x = %s)) %s" % (atom(vals[1].code), atom(vals[0].code)))
@@ -2198,6 +2918,62 @@ class FunctionTranslator:
         code = " && ".join("decide (%s)" % p for p in props)
         prop = " ∧ ".join(props)
         return binds, Val("B", code, prop=prop)
+
+    def opt_term(self, v, base, where):
+        """phase 4 (pyclassify): Lean term of type `Option <base>` for a value that may be None"""
+        if v.kind == "none":
+            return "none"
+        if is_opt(v.kind):
+            if v.kind[1] != base or v.kind[2] != "none":
+                raise Problem("comparison of maybe-None values of kinds %r and %r (%s)" % (v.kind, base, where))
+            return v.code
+        if base == "N" and self.natlike(v):
+            return "some %s" % atom(self.as_nat(v))
+        if base == "I" and self.is_int(v):
+            return "some %s" % atom(self.as_int(v))
+        if base == "S" and v.kind == "S" and not v.unit:
+            return "some %s" % atom(v.code)
+        if base == v.kind and base in ("INT",):
+            return "some %s" % atom(v.code)
+        raise Problem("comparison of a maybe-None value of kind %r with a value of kind %r (%s)" % (base, v.kind, where))
+
+    def compare_obj(self, node, vals, binds, where):
+        """phase 4 (pyclassify): `==` / `!=` where an operand may be None (Python: `None == x` is False, no exception),
+        `==` / `!=` / `in (..)` on members of `IntersectionClassification` (identity of enum members), `is None`"""
+        if len(vals) != 2:
+            raise Problem("chained comparison of maybe-None values / enum members (%s)" % where)
+        op, a, b = node.ops[0], vals[0], vals[1]
+        if isinstance(op, ast.In) and b.kind == ("list", "POS") and (a.kind == "REF" or a.kind == ("opt", "REF", "none")):
+            if a.kind == "REF":
+                return binds, Val("B", "Rt.refIn %s %s" % (atom(a.code), atom(b.code)))
+            return binds, Val("B", "(match %s with | some r => Rt.refIn r %s | none => false)" % (a.code, atom(b.code)))
+        if isinstance(op, (ast.In, ast.NotIn)):
+            if not (a.kind == "CLS" and is_tuple(b.kind) and b.comps and all(c.kind == "CLS" for c in b.comps)):
+                raise Problem("`in` other than <classification> in (<members>) (%s)" % where)
+            prop = " ∨ ".join("%s = %s" % (atom(a.code), atom(c.code)) for c in b.comps)
+            if isinstance(op, ast.NotIn):
+                prop = "¬ (%s)" % prop
+            return binds, Val("B", "decide (%s)" % prop, prop=prop)
+        if isinstance(op, (ast.Is, ast.IsNot)) and a.kind == "none" and b.kind == "none":
+            return binds, Val("B", "true" if isinstance(op, ast.Is) else "false", prop="True" if isinstance(op, ast.Is) else "False")
+        if isinstance(op, (ast.Is, ast.IsNot)):
+            if b.kind != "none" or not (is_opt(a.kind) or a.kind == "CLS"):
+                raise Problem("`is` other than <maybe-None value> is None (%s)" % where)
+            prop = "%s %s none" % (atom(a.code), "=" if isinstance(op, ast.Is) else "≠")
+            return binds, Val("B", "decide (%s)" % prop, prop=prop)
+        if not isinstance(op, (ast.Eq, ast.NotEq)):
+            raise Problem("ordering comparison of a maybe-None value (it must be unwrapped first) (%s)" % where)
+        sym = "=" if isinstance(op, ast.Eq) else "≠"
+        if a.kind == "CLS" or b.kind == "CLS":
+            if not all(v.kind in ("CLS", "none") for v in (a, b)):
+                raise Problem("comparison of a classification with a value of another kind (%s)" % where)
+            prop = "%s %s %s" % (atom(a.code), sym, atom(b.code))
+            return binds, Val("B", "decide (%s)" % prop, prop=prop)
+        bases = [v.kind[1] for v in (a, b) if is_opt(v.kind)]
+        if not bases or a.kind == "INT" or b.kind == "INT":
+            raise Problem("comparison of values of kinds %r, %r (%s)" % (a.kind, b.kind, where))
+        prop = "%s %s %s" % (atom(self.opt_term(a, bases[0], where)), sym, atom(self.opt_term(b, bases[0], where)))
+        return binds, Val("B", "decide (%s)" % prop, prop=prop)
 
     def boolop(self, node, env, where):
         is_and = isinstance(node.op, ast.And)
@@ -2323,6 +3099,8 @@ class FunctionTranslator:
         if is_list(base.kind) and base.kind[1] is not None:
             b2, iv = self.tx(sl, env)
             binds += b2
+            if is_opt(iv.kind) and iv.kind[1] == "N" and iv.kind[2] == "none":      # phase 4: `lst[None]` is a TypeError
+                iv = self.need(binds, iv, "N", "list index (%s)" % where)
             if not self.natlike(iv):
                 raise Problem("index of kind %r into a list (%s)" % (iv.kind, where))
             t = self.tmp()
@@ -2334,6 +3112,13 @@ class FunctionTranslator:
             t = self.tmp()                            # phase 4: `m[i, :]` with a constant i >= 0
             binds.append(("bind", t, "Rt.rowI %s %d" % (atom(base.code), self.const_index_opt(sl.elts[0]))))
             return binds, Val("V", t)
+        if base.kind == "MN" and not base.wide and isinstance(sl, ast.Tuple) and len(sl.elts) == 2 \
+                and all(isinstance(x, ast.Slice) and x.step is None for x in sl.elts) \
+                and sl.elts[1].lower is None and sl.elts[1].upper is None \
+                and not (sl.elts[0].lower is None and sl.elts[0].upper is None):
+            # phase 4 (pypipeline): `m[lo:hi, :]` - a range of rows
+            lo, hi = self.slice_bounds(binds, sl.elts[0], env, where)
+            return binds, Val("MN", "Rt.slice %s %s %s" % (atom(base.code), lo, hi))
         if base.kind == "MN" and isinstance(sl, ast.Tuple) and len(sl.elts) == 2 and isinstance(sl.elts[1], ast.Slice):
             first, second = sl.elts
             if isinstance(first, ast.Slice) and first.lower is None and first.upper is None and first.step is None \
@@ -2430,7 +3215,39 @@ class FunctionTranslator:
     def call(self, node, env, where, stmt=False):
         f = node.func
         target = None          # ("fn", module, name) | ("np", dotted) | ("builtin", name)
-        if isinstance(f, ast.Name) and f.id not in env:
+        if not stmt and isinstance(f, ast.Attribute) and f.attr == "ravel" and \
+                not (isinstance(f.value, ast.Name) and f.value.id not in env):
+            # phase 4 (pyclassify): `x.ravel(order="F")` of a `d x 1` array: the 1-D array of its d entries (a view)
+            kw = {k.arg: k.value for k in node.keywords}
+            binds, v = self.tx(f.value, env)
+            if v.kind == "C":
+                if node.args or not set(kw) <= {"order"} or \
+                        ("order" in kw and not (isinstance(kw["order"], ast.Constant) and kw["order"].value in ("F", "C", "A", "K"))):
+                    raise Problem("ravel of a value of kind %r / with these arguments (%s)" % (v.kind, where))
+                r = Val("V", v.code, inplace=v.inplace)
+                r.view = True
+                return binds, r
+            # any other kind: the `reshape` / `ravel` handler of phase 4 (pypipeline) below decides (or refuses)
+        if not stmt and isinstance(f, ast.Attribute) and f.attr == "pop" and isinstance(f.value, ast.Name) and \
+                f.value.id in env and env[f.value.id].kind == "CSET":
+            # phase 4 (pyclassify): `all_types.pop()`; the set is changed in place: the variable must not be read again
+            if node.args or node.keywords:
+                raise Problem("pop with arguments (%s)" % where)
+            t = self.tmp()
+            self.dead_names = getattr(self, "dead_names", set()) | {f.value.id}
+            return [("bind", t, "Rt.setPop1 %s" % atom(env[f.value.id].code))], Val("CLS", t)
+        if isinstance(f, ast.Name) and f.id not in env and f.id not in self.mod.funcs and f.id not in self.locals_ \
+                and isinstance(self.mod.consts.get(f.id), ast.Attribute):
+            # phase 4 (pyclassify): a module-level alias of a NumPy function (`_SIGN = np.sign`)
+            c = self.mod.consts[f.id]
+            if isinstance(c.value, ast.Name) and self.mod.aliases.get(c.value.id) == "numpy" and c.attr == "sign":
+                target = ("np", "sign")
+        if isinstance(f, ast.Attribute) and isinstance(f.value, ast.Name) and f.value.id not in env and \
+                (self.mod.aliases.get(f.value.id), f.attr) == self.INT_CLASS and not stmt:
+            return self.make_intersection(node, env, where)
+        if target is not None:
+            pass
+        elif isinstance(f, ast.Name) and f.id not in env:
             if f.id in self.mod.funcs or (self.modname, f.id) in ABSTRACT:
                 target = ("fn", self.modname, f.id)
             elif f.id in ("abs", "min", "max", "len", "float"):
@@ -2450,6 +3267,49 @@ class FunctionTranslator:
                     target = ("bisect", ".".join(chain))
                 elif al is not None and len(chain) == 1:
                     target = ("fn", al, chain[0])
+        if target is None and isinstance(f, ast.Attribute) and isinstance(f.value, ast.Name) and f.value.id not in env \
+                and f.value.id in self.mod.classes and (self.modname, "%s.%s" % (f.value.id, f.attr)) in ABSTRACT and not stmt:
+            # phase 4 (pypipeline): an untranslated class method `Class.method(args)`
+            return self.abstract_call(node, self.modname, "%s.%s" % (f.value.id, f.attr), env, where)
+        if target is None and isinstance(f, ast.Name) and f.id not in env and f.id in OBJECTS and f.id in self.mod.classes \
+                and not stmt:
+            return self.construct(node, f.id, env, where)
+        if target is None and isinstance(f, ast.Name) and f.id not in env and not stmt and "Linearization" in self.mod.classes \
+                and (f.id == "Linearization" or (f.id == "cls" and getattr(self, "cls_name", None) == "Linearization")):
+            return self.construct_lin(node, env, where)
+        if target is None and isinstance(f, ast.Attribute) and f.attr in ("reshape", "ravel") and not stmt:
+            # phase 4 (pypipeline): `v.reshape((n, 1), order="F")` of a 1-D array, `m.ravel(order="F")` of a 2-D array
+            kw = {k_.arg: k_.value for k_ in node.keywords}
+            if set(kw) != {"order"} or not (isinstance(kw["order"], ast.Constant) and kw["order"].value == "F"):
+                raise Problem("%s without order=\"F\" (%s)" % (f.attr, where))
+            binds, v = self.tx(f.value, env)
+            if f.attr == "ravel" and not node.args and v.kind == "MN" and not v.wide:
+                return binds, Val("V", "Rt.ravelF %s" % atom(v.code))
+            if f.attr == "reshape" and len(node.args) == 1 and isinstance(node.args[0], ast.Tuple) \
+                    and len(node.args[0].elts) == 2 and self.const_int(node.args[0].elts[1]) == 1 and v.kind == "V":
+                n = self.const_int(node.args[0].elts[0])
+                if n is not None and n >= 1:
+                    t = self.tmp()
+                    binds.append(("bind", t, "Rt.reshapeCol %d %s" % (n, atom(v.code))))
+                    return binds, Val("C", t)
+            raise Problem("call of %s of a value of kind %r with this argument list (%s)" % (f.attr, v.kind, where))
+        if target is None and isinstance(f, ast.Name) and f.id in env and is_fn(env[f.id].kind) and not stmt:
+            # phase 4 (pypipeline): call of a callable parameter (positional arguments of the declared kinds)
+            _, akinds, rk, can_raise = env[f.id].kind
+            if node.keywords or len(node.args) != len(akinds):
+                raise Problem("call of %s with this argument list (%s)" % (f.id, where))
+            binds, args = [], []
+            for a, kd in zip(node.args, akinds):
+                b, v = self.tx(a, env)
+                binds += b
+                v = self.need(binds, v, kd, "argument of %s (%s)" % (f.id, where))
+                args.append(atom(v.code))
+            code = "%s %s" % (env[f.id].code, " ".join(args))
+            if can_raise:
+                t = self.tmp()
+                binds.append(("bind", t, code))
+                code = t
+            return binds, Val(rk, code)
         if target is None:
             raise Problem("call of %s (%s)" % (ast.unparse(f), where))
         if target[0] == "fn":
@@ -2457,6 +3317,121 @@ class FunctionTranslator:
         if stmt:
             raise Problem("call whose result is discarded (%s)" % where)
         return self.prim_call(node, target, env, where)
+
+    def construct(self, node, cls, env, where):
+        """phase 4 (pypipeline): `SubdividedCurve(a, b, ...)`: `__init__` must do nothing but `self.<slot> = <parameter>`
+        for each slot; missing arguments take the numeric defaults of `__init__`"""
+        kind, struct, slots = OBJECTS[cls]
+        init = self.mod.methods.get((cls, "__init__"))
+        if init is None:
+            raise Problem("class %s has no __init__ (%s)" % (cls, where))
+        ia = init.args
+        params = [x.arg for x in ia.args][1:]
+        body = [st for st in init.body if not (isinstance(st, ast.Expr) and isinstance(st.value, ast.Constant))]
+        ok = params == [sl for sl, _, _ in slots] and len(body) == len(params) and not (ia.vararg or ia.kwarg or ia.kwonlyargs)
+        for st, f in zip(body, params):
+            ok = ok and isinstance(st, ast.Assign) and len(st.targets) == 1 and \
+                ast.unparse(st.targets[0]) == "self.%s" % f and ast.unparse(st.value) == f
+        if not ok:
+            raise Problem("%s.__init__ does more than storing its parameters in the slots %s (%s)"
+                          % (cls, [sl for sl, _, _ in slots], where))
+        defaults = dict(zip(params[len(params) - len(ia.defaults):], ia.defaults))
+        given = {}
+        if len(node.args) > len(params):
+            raise Problem("too many arguments for %s (%s)" % (cls, where))
+        for pn, a in zip(params, node.args):
+            given[pn] = a
+        for kw_ in node.keywords:
+            if kw_.arg is None or kw_.arg not in params or kw_.arg in given:
+                raise Problem("keyword argument of %s (%s)" % (cls, where))
+            given[kw_.arg] = kw_.value
+        binds, fields = [], []
+        for sl, field, kd in slots:           # NOTE: Python evaluates positional arguments, then keywords, left to right
+            if sl in given:
+                b, v = self.tx(given[sl], env)
+                if b:
+                    raise Problem("an argument of %s that can raise (%s)" % (cls, where))
+                v = self.as_scalar(binds, v, "argument of %s (%s)" % (cls, where)) if kd == "S" else v
+                if v.kind != kd:
+                    raise Problem("argument %s of %s: kind %r where %r is required (%s)" % (sl, cls, v.kind, kd, where))
+                code = v.code
+            else:
+                if sl not in defaults or self.const_eval(defaults[sl]) is None:
+                    raise Problem("argument %s of %s is missing (%s)" % (sl, cls, where))
+                code = lit(self.const_eval(defaults[sl]))
+            fields.append("%s := %s" % (field, code))
+        return binds, Val(kind, "({ %s } : %s K)" % (", ".join(fields), struct))
+
+    LIN_INIT = ["self.curve = curve", "self.error = error", "self.start_node = curve.nodes[:, 0]",
+                "self.end_node = curve.nodes[:, -1]"]
+
+    def construct_lin(self, node, env, where):
+        """phase 4 (pypipeline): `Linearization(curve, error)`: `__init__` must be exactly `LIN_INIT` (checked on the
+        source text): the two arguments are stored and `start_node` / `end_node` are the first / last column of the
+        curve's nodes (IndexError on an empty row); a candidate (SHAPE) given as `curve` must be a SubdividedCurve"""
+        init = self.mod.methods.get(("Linearization", "__init__"))
+        body = [] if init is None else [ast.unparse(st) for st in init.body
+                                        if not (isinstance(st, ast.Expr) and isinstance(st.value, ast.Constant))]
+        if init is None or [x.arg for x in init.args.args] != ["self", "curve", "error"] or init.args.defaults \
+                or body != self.LIN_INIT:
+            raise Problem("Linearization.__init__ is not the expected one (%s)" % where)
+        if node.keywords or len(node.args) != 2:
+            raise Problem("Linearization(...) with this argument list (%s)" % where)
+        binds, c = self.tx(node.args[0], env)
+        if c.kind == "SHAPE":
+            t = self.tmp()
+            binds.append(("bind", t, "Rt.PyShape.asSub %s" % atom(c.code)))
+            c = Val("OSUB", t)
+        if c.kind != "OSUB":
+            raise Problem("Linearization(curve, ..): kind %r (%s)" % (c.kind, where))
+        b2, e = self.tx(node.args[1], env)
+        binds += b2
+        e = self.as_scalar(binds, e, "error of a Linearization (%s)" % where)
+        a, b = self.tmp(), self.tmp()
+        binds.append(("bind", a, "List.mapM (fun r => Rt.idx r 0) %s.nodes" % atom(c.code)))
+        binds.append(("bind", b, "List.mapM Rt.idxLast %s.nodes" % atom(c.code)))
+        return binds, Val("LIN", "({ curve := %s, error := %s, start_node := %s, end_node := %s } : Rt.PyLin K)"
+                          % (c.code, e.code, a, b))
+    def make_intersection(self, node, env, where):
+        """phase 4 (pyclassify): `intersection_helpers.Intersection(index_first, s, index_second, t, interior_curve=None)`:
+        the constructor must do nothing but store its five parameters in the slots of the same names"""
+        other = self.tr.module(self.INT_CLASS[0])
+        init = other.methods.get((self.INT_CLASS[1], "__init__"))
+        names = list(self.INT_FIELDS)
+        ok = init is not None and [x.arg for x in init.args.args] == ["self"] + names and \
+            not (init.args.vararg or init.args.kwarg or init.args.kwonlyargs or init.args.posonlyargs) and \
+            len(init.args.defaults) == 1 and isinstance(init.args.defaults[0], ast.Constant) and \
+            init.args.defaults[0].value is None
+        if ok:
+            body = [st for st in init.body if not (isinstance(st, ast.Expr) and isinstance(st.value, ast.Constant))]
+            ok = len(body) == len(names)
+            for st, f in zip(body, names):
+                ok = ok and isinstance(st, ast.Assign) and len(st.targets) == 1 and \
+                    ast.unparse(st.targets[0]) == "self.%s" % f and ast.unparse(st.value) == f
+        if not ok:
+            raise Problem("Intersection.__init__ is not the plain five-slot constructor (%s)" % where)
+        given = dict(zip(names, node.args))
+        for k in node.keywords:
+            if k.arg not in names or k.arg in given:
+                raise Problem("Intersection(...) with this argument list (%s)" % where)
+            given[k.arg] = k.value
+        if len(node.args) > 5 or any(isinstance(a, ast.Starred) for a in node.args) or set(names[:4]) - set(given):
+            raise Problem("Intersection(...) with this argument list (%s)" % where)
+        binds, parts = [], []
+        for f in names:
+            kd, field = self.INT_FIELDS[f]
+            if f not in given:
+                parts.append("%s := none" % field)
+                continue
+            b, v = self.tx(given[f], env)
+            binds += b
+            if kd == "CLS":
+                if v.kind not in ("CLS", "none"):
+                    raise Problem("Intersection(...): %s of kind %r (%s)" % (f, v.kind, where))
+                parts.append("%s := %s" % (field, v.code))
+            else:
+                parts.append("%s := %s" % (field, self.opt_term(v, kd[1], where)))
+        return binds, Val("INT", "({ %s } : Model.Classify.Intersection K)" % ", ".join(parts))
 
     def use_extra(self, x):
         if x not in self.extra:
@@ -2476,10 +3451,13 @@ class FunctionTranslator:
                 raise Problem("argument of %s must be a one-entry array (%s)" % (fn, where))
             if want == "S":
                 v = self.as_scalar(binds, v, "argument of %s (%s)" % (fn, where))
+            if want == "SHAPE" and v.kind in ("OSUB", "LIN"):        # phase 4 (pypipeline): an object as a candidate
+                v = Val("SHAPE", "Rt.PyShape.%s %s" % ("sub" if v.kind == "OSUB" else "lin", atom(v.code)))
             if v.kind != want:
                 raise Problem("argument of %s: kind %r where %r is required (%s)" % (fn, v.kind, kd, where))
             args.append(atom(v.code))
         self.use_extra((mod, fn))
+        fn = fn.replace(".", "_")
         if not can_raise:
             return binds, Val(ret, "%s %s" % (fn, " ".join(args)))
         t = self.tmp()
@@ -2495,6 +3473,16 @@ class FunctionTranslator:
         if callee is None:
             raise Problem("call of %s, which could not be translated (%s)" % (fn, where))
         missing = callee.params[len(node.args):]
+        kwargs = {}
+        if node.keywords and all(k.arg in missing for k in node.keywords) and \
+                len({k.arg for k in node.keywords}) == len(node.keywords) and \
+                all(p in callee.defaults for p in missing) and \
+                [p for p in missing if p in {k.arg for k in node.keywords}] == missing[:len(node.keywords)]:
+            # phase 4 (pyclassify): keyword arguments for the parameters that directly follow the positional ones
+            # (`get_next_first(intersection, intersections, to_end=False)`) are read as positional arguments
+            node = ast.Call(func=node.func, args=list(node.args) + [k.value for k in sorted(
+                node.keywords, key=lambda k: missing.index(k.arg))], keywords=[])
+            missing = callee.params[len(node.args):]
         if node.keywords or len(node.args) > len(callee.kinds) or any(isinstance(a, ast.Starred) for a in node.args) \
                 or any(p not in callee.defaults for p in missing):
             raise Problem("call of %s with keyword / starred / missing arguments (%s)" % (fn, where))
@@ -2520,17 +3508,24 @@ class FunctionTranslator:
                 t = self.tmp()                        # phase 4: the shape is checked at the call
                 binds.append(("bind", t, "Rt.asM22 %s" % atom(v.code)))
                 v = Val("M22", t)
-            elif kd in ("M22", "M2N", "MN", "SUB", "C"):
+            elif kd in ("M22", "M2N", "MN", "SUB", "C", "INT", "CLS", "OL", "REF", "CSET"):
+                if kd == "CSET" and isinstance(a, ast.Name):         # the callee may pop from it
+                    self.dead_names = getattr(self, "dead_names", set()) | {a.id}
+                if kd == "INT" and v.kind == "REF":          # only the slots of the object are read
+                    v = Val("INT", "%s.val" % atom(v.code))
+                if is_opt(v.kind) and v.kind[1] == kd and v.kind[2] == "none":
+                    v = self.need(binds, v, kd, "argument %s of %s (%s)" % (pn, fn, where))     # phase 4: TypeError on None
                 if v.kind != kd:
                     raise Problem("argument %s of %s: kind %r where %r is required (%s)" % (pn, fn, v.kind, kd, where))
             else:
                 v = self.need(binds, v, kd, "argument %s of %s (%s)" % (pn, fn, where))
             args.append(atom(v.code))
         for pn in missing:
-            args.append(lit(callee.defaults[pn]))
+            dv = callee.defaults[pn]
+            args.append(("true" if dv else "false") if isinstance(dv, bool) else lit(dv))
         for x in callee.uses_sqrt:
             self.use_extra(x)
-        args = [x if x == "sqrt" else x[1] for x in callee.uses_sqrt] + args
+        args = [x if x == "sqrt" else x[1].replace(".", "_") for x in callee.uses_sqrt] + args
         code = "%s %s" % (lean_fn_name(mod, fn), " ".join(args))
         if callee.monadic:
             t = self.tmp()
@@ -2538,7 +3533,12 @@ class FunctionTranslator:
             code = t
         if stmt:
             return binds, Val(callee.ret, code), muts
-        return binds, Val(callee.ret, code)
+        r = Val(callee.ret, code)
+        cnode = self.tr.module(mod).funcs.get(fn)
+        # phase 4 (pyclassify): every `return` of the callee delivers the value of an arithmetic expression = a new array
+        r.fresh = cnode is not None and all(isinstance(n.value, (ast.BinOp, ast.UnaryOp))
+                                            for n in ast.walk(cnode) if isinstance(n, ast.Return))
+        return binds, r
 
     def prim_call(self, node, target, env, where):
         name = target[1]
@@ -2571,7 +3571,19 @@ class FunctionTranslator:
                     binds += b
                     comps.append(atom(self.need(binds, v, "S", "array entry (%s)" % where).code))
                 return binds, Val("P", "(%s, %s)" % (comps[0], comps[1]), comps=comps)
+            if len(elts) >= 1 and all(isinstance(e, ast.List) and len(e.elts) == 1 for e in elts):
+                rows = []              # phase 4 (pypipeline): a d x 1 literal `[[a], [b]]` as a 2-D array
+                for r in elts:
+                    b, v = self.tx(r.elts[0], env)
+                    binds += b
+                    rows.append("[%s]" % self.need(binds, v, "S", "array entry (%s)" % where).code)
+                return binds, Val("MN", "[" + ", ".join(rows) + "]")
             raise Problem("array literal of unsupported shape (%s)" % where)
+        if target[0] == "np" and name == "empty" and len(node.args) == 1 and set(kw) <= {"order"} \
+                and isinstance(node.args[0], ast.Tuple) and len(node.args[0].elts) == 2 \
+                and self.const_int(node.args[0].elts[1]) == 0 and (self.const_int(node.args[0].elts[0]) or 0) >= 1:
+            # phase 4 (pypipeline): `np.empty((d, 0))` has no entries: d empty rows
+            return [], Val("MN", "(List.replicate %d [] : List (List K))" % self.const_int(node.args[0].elts[0]))
         if target[0] == "np" and name in ("min", "max") and len(node.args) == 1 and set(kw) == {"axis"} and kw_is("axis", 1):
             binds, v = self.tx(node.args[0], env)
             prim = "Rt.npMin" if name == "min" else "Rt.npMax"
@@ -2634,7 +3646,7 @@ class FunctionTranslator:
                               % (la, atom(self.as_nat(b)), la, la))
         if target == ("builtin", "len") and len(node.args) == 1 and not kw:
             binds, v = self.tx(node.args[0], env)
-            if not (is_list(v.kind) or v.kind == "V"):
+            if not (is_list(v.kind) or v.kind in ("V", "CSET", "OL")):
                 raise Problem("len of a value of kind %r (%s)" % (v.kind, where))
             return binds, Val("N", "List.length %s" % atom(v.code))
         if target == ("builtin", "float") and len(node.args) == 1 and not kw:
@@ -2654,6 +3666,20 @@ class FunctionTranslator:
             a = self.need(binds, a, "S", "argument of %s (%s)" % (name, where))
             b = self.need(binds, b, "S", "argument of %s (%s)" % (name, where))
             return binds, Val("S", "Model.%sK %s %s" % (name, atom(a.code), atom(b.code)))
+        if target == ("np", "sign") and len(node.args) == 1 and not kw:
+            # phase 4 (pyclassify): np.sign of a float / of a list literal of floats (then: the tuple of the signs)
+            if isinstance(node.args[0], ast.List) and node.args[0].elts:
+                binds, comps = [], []
+                for e in node.args[0].elts:
+                    b, v = self.tx(e, env)
+                    binds += b
+                    v = self.need(binds, v, "S", "argument of np.sign (%s)" % where)
+                    comps.append(Val("S", "Rt.sign %s" % atom(v.code)))
+                return binds, Val(("tuple", tuple("S" for _ in comps)), "(" + ", ".join(c.code for c in comps) + ")",
+                                  comps=comps)
+            binds, v = self.tx(node.args[0], env)
+            v = self.need(binds, v, "S", "argument of np.sign (%s)" % where)
+            return binds, Val("S", "Rt.sign %s" % atom(v.code))
         if target[0] == "np" and name == "vdot" and len(node.args) == 2 and not kw:
             binds, a = self.tx(node.args[0], env)
             b2, b = self.tx(node.args[1], env)
@@ -2704,6 +3730,8 @@ import BezierVerif.Model.Solve2x2
 import BezierVerif.Model.Helpers
 import BezierVerif.Model.Geometric
 import BezierVerif.Model.Newton
+import BezierVerif.Model.Classify
+import BezierVerif.Model.Walk
 
 set_option linter.unusedVariables false
 
